@@ -12,2586 +12,1292 @@ Definition show_fres (r : fres) : string :=
   end.
 Definition check (rs : list rune) : string := digest (show_fres (format_res rs)).
 Definition full (rs : list rune) : string := show_fres (format_res rs).
-Eval vm_compute in ("<<<M4445>>>" ++ check (runes_of_ascii "
-// top
-	  options 	 // c0a
-    	// c0b
-  {
+Eval vm_compute in ("<<<M1613>>>" ++ check (runes_of_ascii "// top
+  options 	 // c0
+  	{ 	 // c1
+StringPrefixLenType
+= 
+  // c3
+  	u8 // c4
+	  ;	// c5a
+		// c5b
 
-    // c1
+ArrayPrefixLenType// c6a
+// c6b
+	=// c7a
+	// c7b
 
-StringPrefixLenType // c2
-    =  u8 ;
-ArrayPrefixLenType 	 // c6
+  u32
+	; 
+    // c9
+  FixedStringPadFromLeft =  
+      // c11
+      false // c12a
 
-=  // c7
-    	u32
-    // c8
-	;	// c9
-  FixedStringPadFromLeft 
-    // c10
-	= 	 // c11a
-  // c11b
-	  false  // c12a
-    // c12b
+// c12b
 
-;
-// c13
-  FixedStringPadChar
-    =
+;	// c13
+FixedStringPadChar = // c15
 
-    ' '
-;  // c17a
-  // c17b
-	}// c18a
-  // c18b
-packet
-	Party 	 // c20a
-// c20b
-{  // c21a
-
-  // c21b
-
-repeat 
-        // c22
-		i16 // c23a
-  // c23b
-
-  Qty
-    // c24
-	  ,	// c25a
-  // c25b
-    repeat string 	 // c27
-
-	Tail 	 // c28a
-      // c28b
-    ,
-    i8  OrderId // c31a
-      // c31b
-	,  // c32a
-
-// c32b
-
-  i8 msgKind 	 // c34a
-// c34b
-    	,  // c35a
-// c35b
-      }packet
-
-    Ack  // c38
-  {  
-      // c39
-
-  Party // c40a
-	// c40b
-,
-	repeat  // c42a
-      // c42b
-  InRef20 
-// c43
-    	{
-Party  // c45a
-
-  // c45b
-,int8// c47a
-	// c47b
-tag7 
-// c48
-,
-// c49
-char[ // c50a
-  	// c50b
-5	// c51a
-	// c51b
-	]
-    OrderId  // c53a
-// c53b
-	, zchar[7 // c56
-]	// c57
-		Tail // c58a
-// c58b
-,// c59
-    char[]  // c60a
-// c60b
-
-  count	// c61
-    ,	// c62a
-
-	// c62b
-InPrice45  // c63
-		{ 	 // c64
-		Party,  // c66a
-
-// c66b
-	char[
-// c67
-	  1
-    // c68
-      ]
-	    // c69
-Px , 
-
-    // c71
-} 	 // c72a
-// c72b
-  ,	} // c74a
-// c74b
-    ,	// c75a
-	// c75b
-char[ 	 // c76
-
-12
-        // c77
-  ]  
-  // c78
-    price 
-        // c79
-  	,// c80
-    int8  
-  // c81
-    sym// c82
-
-,// c83
-  	}  packet	Reject	// c86
-  {
-        // c87
-		repeat InPrice47	// c89
-      {  // c90a
-	// c90b
-Party
-    ,// c92a
-      // c92b
-      } ,// c94a
-    	// c94b
-    zchar[ // c95a
-// c95b
-4	// c96
-		] 	 // c97
-	x  // c98
-,  // c99
-	  repeat
-Ack
-// c101
-	,	// c102
-  zchar[  // c103a
-    // c103b
-		2	// c104a
-  	// c104b
-	]	// c105a
-  // c105b
-	Ref ,
-	// c107
-  repeat Party
-        // c109
-
-,  // c110a
-	// c110b
-
-}  // c111
-    packet 
-Cancel // c113
-	{ 	 // c114a
-  // c114b
-
-  Reject 
-, 
-
-// c116
-  repeat
-
-string // c118a
-// c118b
-f1, 
-
-// c120
-uint16  // c121a
-	// c121b
-OrderId 
-// c122
-  , 
-    // c123
-		u8 // c124
-    Acct
-
-    ,  // c126a
-	  // c126b
-  int8
-    // c127
-  msgKind ,}// c130
-	root
-packet	// c132
-Fill
-	    // c133
-    	{	u8  // c135a
-	// c135b
-  count ,
-char[] // c138
-      tag7
-,
-    // c140
-		zchar[  // c141a
-  // c141b
-	7 ] 
-
-// c143
-	  Acct 	 // c144a
-// c144b
-
-,	// c145a
-// c145b
-u32 // c146
-	  OrderId , 
-
-    // c148
-    u32	Note
-// c150
-	@lengthOf(	// c151a
-    // c151b
-Body// c152
-		)  // c153
-
-	,	// c154a
-
-// c154b
-    match
-    // c155
-      OrderId// c156
-    as  // c157a
-	// c157b
-		Body 
-    // c158
-  	{ // c159a
-    	// c159b
-  106
-// c160
-
-  :	// c161
-    Cancel 
-      // c162
-	, 196
-	    // c164
-:// c165
-  	Reject 	 // c166
-	  , 	 // c167
-	74	// c168
-    :
-
-Party ,  
-      // c171
-	  75 
-:  // c173
-		Ack 
-  // c174
-    ,	},// c177a
-  // c177b
-    }	// c178a
-  // c178b")).
-Eval vm_compute in ("<<<M88>>>" ++ check (runes_of_ascii "options  { BodyLength
-=
-    string; trueish	=""it's"" i8i8
-    =  ""// no comment""
-    // trailing space 
-    roots
-// a // b
-// packet A { u8 x, }
-=// `tick` ""quote"" 'q'
-""" ++ [28040; 24687]%N ++ runes_of_ascii """ ;// a // b
-falsey = '\x00' ; } packet metadata{
-    packetx
-    { repeat rootA x_y_z `tab	here` , repeat pack
-, Logon {
-    u16 msg_type , u8 BodyLength
-`
-`,
-zchar[
-3 ] int  ,} ,
-a1
-T, }
-, // `tick` ""quote"" 'q'
-repeat f32 o `crlf
-line`
-, i32 rootA, int32  matchKey , @leftPad
-// a // b
-// @lengthOf(
-( )
-x_y_z {	match body	as	u8x
-    { [ ""{,}"" ]:u8x	, 3:
-u8x , 4294967296: As ,
-[ ""CRC32"" ]:A
-,
-255 // packet A { u8 x, }
-: body
-    //
-    , // c
-42
-    :
-x_y_z }
-, } , repeat
-body float
-, } // trailing space 
-packet trueish
-{ stringy @lengthOf( float )	`{ , }`
-,repeat// packet A { u8 x, }
-i64_ ,
-    uint16 string_
-    // `tick` ""quote"" 'q'
-    @calculatedFrom(
-""\" ++ [233]%N ++ runes_of_ascii """)
-`
-`	, // a // b
-@tag( 0123456789)char[
-    //x
-    4294967296 ]
-    calculatedFrom @lengthOf( int )`line1
-line2`	, // packet A { u8 x, }
-match rootA as asx
-{	""\" ++ [233]%N ++ runes_of_ascii """: f32a, ""\n"" :
-    rootA [ ""a\\""
-//
-//
-, 0123456789 ] : crc
-,1 : msg_type , ""a	b"" :stringy// packet A { u8 x, }
-, }
-    // " ++ [27880; 37322]%N ++ runes_of_ascii "
-    ,repeat len	{ string_{i16 _x , _x { repeat uint8x a1
-, char[ 42
-    ]	zchar
-    `say ""hi""` , zchar[ 7  ] uint8x ,
-}
-    ,repeat i8i8 body, }
-    // " ++ [128512]%N ++ runes_of_ascii " emoji
-    , uint8
-T	@lengthOf(
-repeatCount ), } ,}root packet asx { @calculatedFrom(	""x y""
-)
-repeat pack ,repeat string_ { u8 metadata
-,} ,  @calculatedFrom( ""abc"" )	roots
-@lengthOf(
-    T
-) `` , match asx as uint8x
-{ 3: u8x, }
-    // a // b
-    ,// trailing space 
-u8x@calculatedFrom( ""{,}"" ) , } packet o // " ++ [128512]%N ++ runes_of_ascii " emoji
-{ string Logon ,charz metadata , match// c
-len as
-float{
-255
-    :
-    //	t
-    uint8x , ""CRC32"": As ,
-    1
-    : body , 7
-:	options1 ,[	""" ++ [128512]%N ++ runes_of_ascii """,""it's"" //
-]:
-    repeatCount}, @leftPad ( ) @calculatedFrom( ""x y"" )  @leftPad(  ' ' )repeat lengthOf,zchar[
-42  ]
-    Logon@calculatedFrom(// packet A { u8 x, }
-"""" ), }
-//x
-")).
-Eval vm_compute in ("<<<M510>>>" ++ check (runes_of_ascii "root
-packet
-Foo  {
-chars
-{ falsey body  , zchar[ 3	] repeatCount
-    `{ , }` , } ,
-@lengthOf(BodyLength ) i8 //	t
-Z9_
-    @lengthOf( trueish ) , // " ++ [128512]%N ++ runes_of_ascii " emoji
-@rightPad (
-) repeat Pad { _x@calculatedFrom( // `tick` ""quote"" 'q'
-""\" ++ [233]%N ++ runes_of_ascii """
-    )	, match msg_type as // @lengthOf(
-uint8x
-    { [ 1 , ""\n""
-    ,0, ""\n""] : Packet ""CRC32"":
-pack,} , } ,  @calculatedFrom( ""a\""b"" ) repeat body {
-char[ 007 ] i64_ // `tick` ""quote"" 'q'
-`
-` ,
-    match charz
-    as pack{ 65535 :
-    u8x 65535 :	zchar
-    ,[ 255 ] // trailing space 
-:	chars
-// `tick` ""quote"" 'q'
-// " ++ [128512]%N ++ runes_of_ascii " emoji
-,1
-:
-    stringy, [ """ ++ [28040; 24687]%N ++ runes_of_ascii """] : int	,0
-    :// " ++ [128512]%N ++ runes_of_ascii " emoji
-asx , } // " ++ [27880; 37322]%N ++ runes_of_ascii "
-, }
-,  match // c
-o
-    as
-// " ++ [128512]%N ++ runes_of_ascii " emoji
-// `tick` ""quote"" 'q'
-A
-    { 007
-    :
-calculatedFrom ,	""abc""
-:roots
-// packet A { u8 x, }
-// packet A { u8 x, }
-, ""`tick`"":Foo
-    ,
-    ""it's"":Foo , 007 :
-//	t
-// packet A { u8 x, }
-float,
-} ,@leftPad
-(' '
-// trailing space 
-// `tick` ""quote"" 'q'
-)
-// `tick` ""quote"" 'q'
-// trailing space 
-repeat repeatCount	, char[ 007 ]
-u128
-// `tick` ""quote"" 'q'
-// packet A { u8 x, }
-`crlf
-line`,} //
-packet asx {
-charz { rootA
-//	t
-// trailing space 
-@calculatedFrom( """ ++ [233]%N ++ runes_of_ascii "t" ++ [233]%N ++ runes_of_ascii """
-) ,  }, }
-packet msg_type
-{
-}MetaData  o{ f32
-msg_type,
-    int64 body
-    , } root packet body {  @tag(1
-    ) @calculatedFrom(	""`tick`""
-)
-    @tag(
-    0123456789
-) metadata
-    {pack i64_ , } ,  repeat zchar[ 7
-    // trailing space 
-    ] asx ,
-chars @calculatedFrom(""\n"" ) , repeat zchar[
-    4294967296 ]
-    x  ,@rightPad (
-'\x00' )u8
-    msg_type `" ++ [233]%N ++ runes_of_ascii "`
-    ,
-float64
-pack @lengthOf(
-    MetaDataX
-    )
-,	}")).
-Eval vm_compute in ("<<<M3903>>>" ++ check (runes_of_ascii "
-packet i64_ {
-    @leftPad(  )
-    @tag(	4294967296	)repeat
-
-    string Logon
-
-`{ , }`  ,	@lengthOf(float )
-	u16
-//x
-		matchKey
-
-@lengthOf(
-body	)
-
-    ,
-repeat
-/// triple
-	  char[ 
-4294967296
-
-    ] tag
-, @lengthOf( 
-asx
-) 
-repeat
-	trueish
-
-    ,	repeat
-    lengthOf len
-
-,  // packet A { u8 x, }
-
-	match asx 
-as
-
-    crc {  [ // a // b
-""" ++ [28040; 24687]%N ++ runes_of_ascii """ 
-	// trailing space 
-  // c
-  	,	""abc"" 
-]
-
-:
-    roots
-
-    ,
-
-}
-    ,  match uint8x as repeatCount
-
-{	[  0123456789 ] : 
-/// triple
-Foo,""a\""b"" : Packet 42 : stringy
-,	[	// `tick` ""quote"" 'q'
-	  0123456789,  007 ]:
-f32a
-
-    ,//x
-
-42
-    : x
+' '  // c16a
+	// c16b
+    ;
 
     } 
+    // c18
+packet	Party  // c20a
+    	// c20b
 
-    // @lengthOf(
-,  @lengthOf(  msg_type)
+	{repeat 
+  // c22
+i16 	 // c23a
+// c23b
+	  Qty 
 
-    uint8x
+    // c24
+, 
+    // c25
+  	repeat // c26
+    string
 
-    ,repeat
+Tail 	 // c28a
+      // c28b
 
-metadata	// " ++ [27880; 37322]%N ++ runes_of_ascii "
+  , 
+    // c29
+	i8  OrderId, // c32
+  i8	msgKind// c34
+    , 
+
+    // c35
+    	} packet// c37a
+
+  // c37b
+	  Ack
+	{  Party	// c40
+, repeat
+        // c42
+
+	InRef20 	 // c43a
+	  // c43b
+    {
+Party 
+        // c45
+		, // c46a
+      // c46b
+	int8// c47a
+    // c47b
+	tag7 	 // c48
+    ,
+
+char[
+	    // c50
+  	5
+] 
+    // c52
+    	OrderId// c53a
+	// c53b
+	  ,	// c54
+		zchar[  // c55
+
+	7  // c56a
+	// c56b
+      ] 
+      // c57
+	Tail 	 // c58
+
+, 	 // c59a
+
+  // c59b
+    char[]
+    // c60
+    count 	 // c61a
+
+// c61b
+, 
+	    // c62
+
+  InPrice45 	 // c63
+{ 
+    // c64
+Party
+,
+	// c66
+  	char[	// c67
+  1	// c68
+    ] // c69
+	Px  // c70
+		,
+	} , 
+	    // c73
+    } ,// c75
+  char[ 
+	    // c76
+  12  ]
+    price // c79a
+// c79b
+  	, 	 // c80a
+// c80b
+	int8	sym  // c82a
+
+// c82b
+
+,  
+      // c83
+} 
+packet 
+// c85
+  Reject {	// c87a
+
+  // c87b
+  	repeat	// c88
+  InPrice47 // c89
+	{
+	Party// c91a
+	// c91b
+    , 
+
+// c92
+}  // c93a
+  // c93b
+    , zchar[// c95a
+  // c95b
+4 
+
+// c96
+    ]  
+      // c97
+x 
+	// c98
 	,
-	}  MetaData 
-float	{
-
-char[  42
-    ]
-Logon
-
-`a\` 
+repeat
+	Ack ,
+zchar[ 2	// c104
+	] 
+  // c105
+	  Ref
 ,
 
-    stringy
-    packetx
-,	int32
+    repeat  // c108a
+    	// c108b
 
-pack
-,  rootA  x,
-	Logon Foo
-    , u16 A
-    //	t
-//x
-    	,} //x
-	  packet
-//	t
+Party
+// c109
+	,// c110
+  }// c111
+packet
+        // c112
+    Cancel // c113a
+  // c113b
+  {  // c114a
+		// c114b
+	  Reject	// c115
 
-	Header
+	,  // c116
+	repeat 
+// c117
+  string
 
-{
-@calculatedFrom(""1""
-)u ,@tag(
+f1 	 // c119a
+  // c119b
+    , // c120
+	uint16 	 // c121a
 
-65535
-        // a // b
-    // trailing space 
-		)
+  // c121b
+    OrderId 
+    // c122
+	,	// c123
+  u8
 
-    pack
+    Acct	// c125a
+  // c125b
+    , 
+int8 // c127a
 
-{
-string  trueish
+// c127b
+  msgKind
 
-`" ++ [28040; 24687; 31867; 22411]%N ++ runes_of_ascii "` , match 
-stringy as
-	tag {
-""a\\"" : float 
-      // `tick` ""quote"" 'q'
-	  ,
-""abc"":
+    , // c129a
+    // c129b
+  }
+root packet 	 // c132a
 
-Z9_,
-	007 
-:
-    metadata
-
-    , 	 // c
-	[ 10	] :
-matchKey // " ++ [27880; 37322]%N ++ runes_of_ascii "
-
-, ""a	b""  :_x 7 	 // " ++ [128512]%N ++ runes_of_ascii " emoji
-  :
-Pad
-	} ,
-
-    repeat
-	body, f32 int 
-,
-
-    }
+// c132b
+      Fill	{u8 	 // c135a
+    	// c135b
+  count
 
     , 
-MetaDataX 
-u128
+	    // c137
+char[]
+	tag7// c139
+    , 
 
-    `doc` 
-, }options {
+    // c140
+      zchar[ // c141a
+		// c141b
+  7// c142a
+// c142b
+    ]  // c143a
+// c143b
+Acct
+
+// c144
+    ,  // c145
+		u32 // c146
+
+OrderId
+	    // c147
+  	,  // c148
+  	u32 
+        // c149
+	Note// c150
+    @lengthOf(  // c151a
+    // c151b
+  Body
+
+// c152
+
+  )	// c153a
+      // c153b
+  , 	 // c154
+
+match  // c155a
+// c155b
+    OrderId
+	// c156
+    as
+    // c157
+Body 	 // c158a
+
+  // c158b
+
+  { // c159a
+    // c159b
+    106 
+	// c160
+		: 	 // c161a
+  // c161b
+  Cancel  // c162
+
+, 	 // c163
+  196: 	 // c165
+	Reject  // c166
+	, 
+    // c167
+    74	// c168a
+  // c168b
+  : 
+	    // c169
+  Party , 
+
+// c171
+  75 	 // c172
+  	: Ack, // c175a
+		// c175b
+
 }
+	,  // c177a
+  // c177b
+} 	 // c178a
+  // c178b
 ")).
-Eval vm_compute in ("<<<M829>>>" ++ check (runes_of_ascii "packet
-    repeatCount
-{match falsey as  string_{65535 : crc ,[ 007 ,
-    // " ++ [27880; 37322]%N ++ runes_of_ascii "
-    65535 , 65535 ] : i8i8 ,
-} ,
-    @lengthOf( // " ++ [128512]%N ++ runes_of_ascii " emoji
-float)
-T {// " ++ [128512]%N ++ runes_of_ascii " emoji
-char[]Packet @lengthOf( // " ++ [27880; 37322]%N ++ runes_of_ascii "
-trueish )
-,}
-    , uint64 Logon `doc` ,
-zchar[ 0
-]
-trueish @calculatedFrom(
-// trailing space 
-// @lengthOf(
-""// no comment""  ) , @lengthOf(a1)repeat rootA i64_ `// not a comment` , u64
-    /// triple
-    u ,} packet	i64_
-// `tick` ""quote"" 'q'
-// `tick` ""quote"" 'q'
-{//
-@rightPad (
-' '
-) f64 float, // `tick` ""quote"" 'q'
-match	rootA as i8i8
-    // c
-    { [ ""\n"" ,
-007 ,
-    """ ++ [128512]%N ++ runes_of_ascii """
-,
-""" ++ [128512]%N ++ runes_of_ascii """ ] :lengthOf }
-, i16
-Packet , int16
-    // `tick` ""quote"" 'q'
-    lengthOf
-    @calculatedFrom(""" ++ [28040; 24687]%N ++ runes_of_ascii """ ) `line1
-line2` ,
-@calculatedFrom( """" )@calculatedFrom( ""it's""	)
-    zchar[
-    // " ++ [128512]%N ++ runes_of_ascii " emoji
-    007 ] As  , char[] i8i8@lengthOf(
-zchar
-//x
-// trailing space 
-),
-u16 packetx @lengthOf(falsey  )
-    , repeat	len
-{// c
-u32 lengthOf ,
-},match MetaDataX as u128
-    { 1
-    : u ,""x y""
-    : u	, 255 :
-    i64_""x y"" :falsey
-, [""1"" , 1 ] :repeatCount
-// a // b
-//	t
-,// packet A { u8 x, }
-} ,
-}
-options {  asx =  uint8 ; matchKey =  true
-i64_ =	false Logon
-= char[]
-/// triple
-// " ++ [27880; 37322]%N ++ runes_of_ascii "
-;
-    A =
-00
-} packet
-Packet
-{ // packet A { u8 x, }
-uint32
-float
-    `it's` ,}
-")).
-Eval vm_compute in ("<<<M3940>>>" ++ check (runes_of_ascii "// top
+Eval vm_compute in ("<<<M1895>>>" ++ check (runes_of_ascii "// top
 options {
-    // c1
-    StringPrefixLenType = u16;
-    ArrayPrefixLenType = u32;// c9a
-    // c9b
-    FixedStringPadFromLeft = false;// c13
-    FixedStringPadChar = '0';// c17
+    LittleEndian = false;// c5a
+    // c5b
+    StringPrefixLenType = u16;// c9
+    ArrayPrefixLenType = u64;
+    // c13
+    FixedStringPadFromLeft = true;// c17a
+    // c17b
+    FixedStringPadChar = ' ';// c21
+}// c22a
+
+// c22b
+packet Logon {
+    // c25
+    u16 Tail,
+    // c28
+    repeat string x,// c32
+    i16 count,
+    @leftPad('0')
+    // c39a
+    // c39b
+    char[3] Note,
 }
 
-// c18
-packet Logout {
-    // c21
-    f64 f1,// c24a
-    // c24b
-    i16 Note,
-    @rightPad('\x00')
-    char[11] Flags,
-}// c37a
+packet Fill {
+    // c48a
+    // c48b
+}
 
-// c37b
-packet Cancel {
-    // c40
-    float64 msgKind,
-    // c43
-}// c44a
+// c49
+packet Heartbeat {
+    // c52a
+    // c52b
+}
 
-// c44b
+// c53
 packet Reject {
-    // c47
-    InQty43 {
-        // c49a
-        // c49b
-        float32 sym,
-        char[10] Tail,
-        uint8 venue,// c60a
-        // c60b
-        uint16 f1,// c63
-        char[9] Acct,
-        // c68
-    },// c70a
-    // c70b
-}// c71
-
-packet Trade {
-    // c74a
-    // c74b
-    char[] x,
-    zchar[6] Note,
-    // c82
-    repeat Reject,// c85
-}
+    string msgKind,// c59a
+    // c59b
+    repeat Logon,// c62a
+    // c62b
+    InFlags25 {
+        // c64
+        repeat InPrice29 {
+            // c67
+            u8 price,// c70
+            Logon,// c72a
+            // c72b
+            repeat char[1] Note,// c78a
+            // c78b
+        },
+        // c80
+        char[] x,
+        // c83
+        Fill,
+        // c85
+    },
+    // c87
+    repeat Heartbeat,
+    // c90
+}// c91
 
 root packet Order {
-    // c90a
-    // c90b
-    Cancel,
-    Logout,// c94
-    u64 Acct,
-    // c97
-    u32 OrderId,
-    match OrderId as Body {
-        // c105
-        [127, 70] : Reject,
-        // c113
-        177 : Trade,
-        // c117
-        58 : Logout,
-        // c121
-        75 : Cancel,
-        // c125
+    InNote88 {
+        // c97
+        repeat i32 Acct,// c101
+        repeat i16 clOrdID,// c105a
+        // c105b
+        repeat Logon,// c108
+    },// c110a
+    // c110b
+    u16 tag7,// c113a
+    // c113b
+    match tag7 as Body {
+        // c118a
+        // c118b
+        [14, 22] : Logon,
+        // c126
+        55 : Heartbeat,
+        // c130
+        93 : Reject,
+        // c134
+        13 : Fill,
     },
-    u32 Tail @calculatedFrom(""CRC32""),
-}// c134")).
-Eval vm_compute in ("<<<M4460>>>" ++ check (runes_of_ascii "root packet crc {
-    repeat zchar[3] Header `u8 x,`,
-    @leftPad(' ')
-    char[] string_ `say ""hi""`,
-    @tag(4294967296)
-    repeat f32a {
-        MetaDataX {
-            repeat u f32a,
-        },
-    },
-    char[3] repeatCount `it's`,
-    @tag(255)
-    Packet `u8 x,`,
-    @rightPad()
-    int32 i64_ ``,
-    @tag(4294967296)
-    i8 o `{ , }`,
-    @tag(4294967296)
-    @calculatedFrom(""a\""b"")
-    char[] trueish,
-    @lengthOf(u8x)
-    i8i8 {
-        metadata zchar,
-        repeat a1 {
-            Header,
-        },//
-        As {
-            match Z9_ as matchKey {
-                ""packet"" : calculatedFrom,
-                [
-                    4294967296, """ ++ [233]%N ++ runes_of_ascii "t" ++ [233]%N ++ runes_of_ascii """, ""`tick`"", 65535, """ ++ [28040; 24687]%N ++ runes_of_ascii """,
-                    ""// no comment"", 65535
-                ] : trueish,
-            },
-            repeat metadata {
-                repeat _x body `
-                `,
-                chars MetaDataX `crlf
-                line`,
-                uint16 u8x @lengthOf(As) `
-                `,
-            },
-            uint8 f32a,
-        },
-    },
-    char[] Logon,
-}")).
-Eval vm_compute in ("<<<M1326>>>" ++ check (runes_of_ascii "MetaData
-// " ++ [128512]%N ++ runes_of_ascii " emoji
-// trailing space 
-o { char[
-255 ] // @lengthOf(
-BodyLength, } packet
-    crc
-    { @tag( 7 ) calculatedFrom @lengthOf(Header ) ,
-    len
-{ float {  i32 T, stringy string_
-    // c
-    , char[ // " ++ [27880; 37322]%N ++ runes_of_ascii "
-65535 ] Packet
-@lengthOf( a1 ) ``
-    , falsey {	u16 Logon  `{ , }` , } ,	}
-, repeat /// triple
-falsey , repeat u8 Logon,} , zchar[ 65535] lengthOf @lengthOf(
-asx  )`line1
-line2` , @rightPad ('0'
-    ) int16 f32a ,@rightPad ( // packet A { u8 x, }
-'\x00' )char[]
-len
-    // packet A { u8 x, }
-    `" ++ [28040; 24687; 31867; 22411]%N ++ runes_of_ascii "`, match string_ as string_
-    /// triple
-    { [ ""a\\"" ,
-10 , 007 ,//	t
-0123456789]	:As
-, [ ""`tick`"" ] : //
-metadata	, ""\n"" :
-falsey,// `tick` ""quote"" 'q'
-[
-3 , // " ++ [27880; 37322]%N ++ runes_of_ascii "
-""" ++ [233]%N ++ runes_of_ascii "t" ++ [233]%N ++ runes_of_ascii """ , //	t
-""CRC32"" ]
-    : lengthOf ,00 :	x_y_z ,  }  , packetx{
-    repeat a1 `it's`// packet A { u8 x, }
-,stringy
-`{ , }`
-    ,match
-    T as
-MetaDataX// @lengthOf(
-{ ""CRC32""
-:	lengthOf
-    } , } ,	} MetaData  tag  { //x
 }
-packet Z9_ {  i16
-rootA
-// packet A { u8 x, }
-// @lengthOf(
-`
-`// " ++ [27880; 37322]%N ++ runes_of_ascii "
-, //	t
-}")).
-Eval vm_compute in ("<<<M941>>>" ++ check (runes_of_ascii "packet Packet	{
-    u128 @calculatedFrom( ""// no comment"" // trailing space 
-) , zchar[ 255 ]repeatCount@lengthOf( Z9_
-    )`doc` ,repeat
-    matchKey { char[ 10]
-    msg_type @calculatedFrom(
-    ""a\\"" )
-    , zchar[ 255 ]
-    o @calculatedFrom( ""CRC32""// a // b
-)	,repeat zchar[00
-    ]Header `it's`
-,repeat asx
-    //
-    { BodyLength//x
-@lengthOf( // " ++ [27880; 37322]%N ++ runes_of_ascii "
-matchKey )
-`{ , }`
-, match metadata as//x
-a1 { 255 : calculatedFrom , 7 : u8x // @lengthOf(
-} , char[ 007 //x
-]  float
+// c141")).
+Eval vm_compute in ("<<<M371>>>" ++ check (runes_of_ascii "MetaData i8i8
     // trailing space 
-    , match charz as //	t
-u8x// trailing space 
-{
-""a\""b"" : Logon, }  ,} , } , repeat Foo
-    `crlf
-line`, @tag(
-    10 )
-rootA charz , int @lengthOf( a1 ) , }
-MetaData lengthOf {zchar[0 // `tick` ""quote"" 'q'
-] //	t
-uint8x , } packet
-len { }// @lengthOf(
-packet u
-    {match f32a as BodyLength{0
-: float
-, }	, } MetaData leftPad // trailing space 
-{ u32 f32a `doc` ,zchar[ 255 ] i64_ ,
-    char[]zchar  ,
-    // `tick` ""quote"" 'q'
-    T i64_
-`" ++ [233]%N ++ runes_of_ascii "`
+    { Pad rootA
+`tab	here` //
+, x_y_z
+metadata
+,zchar[ 255] x_y_z `doc` , metadata i8i8 , uint8x
+    leftPad
+    `say ""hi""` , int32
+charz
+    `" ++ [28040; 24687; 31867; 22411]%N ++ runes_of_ascii "` , } packet
+len {  char[
+    255 ]
+f32a//x
+@calculatedFrom(
+""a	b"") `// not a comment` ,f64 u8x
+//
+// `tick` ""quote"" 'q'
 ,
-    }
-")).
-Eval vm_compute in ("<<<M576>>>" ++ check (runes_of_ascii "
-root
-    packet
-    //	t
-    len{roots@calculatedFrom( ""\n"" ) , } root packet u { @lengthOf( i8i8
-) float64 Header@calculatedFrom(
-    ""1""
-)
-`a\`  ,
-lengthOf { stringy @lengthOf( BodyLength
-)
-, float64 BodyLength // trailing space 
-`tab	here`
-,/// triple
-int16 a1@calculatedFrom( ""{,}""
-) `{ , }`, BodyLength ,
-} ,
-@tag(1	)  @rightPad	( ) @rightPad
-(
-'0' ) // @lengthOf(
-packetx
-@calculatedFrom( ""\n"") ,// @lengthOf(
-@lengthOf( Pad ) zchar[ 65535
-// packet A { u8 x, }
-// trailing space 
-]
-    // trailing space 
-    lengthOf , char[// " ++ [27880; 37322]%N ++ runes_of_ascii "
-007]	string_ `// not a comment`	, @rightPad ( )
-    repeat //	t
-string falsey , @tag( 4294967296)
-    //x
-    char Foo `
-`,  match	options1	as body {65535 :	o
-4294967296 :
-tag, ""x y"": trueish
-    // packet A { u8 x, }
-    , ""packet""
-    :
-As , [ 0123456789]: rootA ,
-""x y"":
-uint8x ,} ,
-} MetaData x { metadata
-zchar`" ++ [28040; 24687; 31867; 22411]%N ++ runes_of_ascii "` , } options { Foo = char[ 255 ] ;
-}")).
-Eval vm_compute in ("<<<M721>>>" ++ check (runes_of_ascii "
-packet a1 { @lengthOf( packetx ) A @lengthOf( T ) `tab	here`,zchar[// " ++ [128512]%N ++ runes_of_ascii " emoji
-42
-    //x
-    ] Header, // " ++ [128512]%N ++ runes_of_ascii " emoji
-@leftPad ( '0'
+options1
+{string charz `u8 x,` ,string_ // packet A { u8 x, }
+@calculatedFrom( // " ++ [27880; 37322]%N ++ runes_of_ascii "
+""a	b""
+) , repeat falsey {a1 `it's`  , stringy
+@lengthOf( Foo
+    )
+,	repeat  zchar[ 10  ]Logon
+`line1
+line2` ,  uint16 repeatCount @lengthOf( options1 )
+    `doc`
+,	} , repeat //x
+u packetx, } , falsey
+x_y_z, char[]matchKey
+`u8 x,`
+, } packet float
+{ @lengthOf( Foo ) u16 a1 `crlf
+line` // `tick` ""quote"" 'q'
+,
+    // `tick` ""quote"" 'q'
+    @leftPad( )
+@lengthOf( string_// `tick` ""quote"" 'q'
 )
     match
-o
-as int
-    { 1 :
-    Logon ,} //x
-, repeat// trailing space 
-packetx `line1
-line2` ,string x
-    @calculatedFrom(
-    ""CRC32"" )
-, i8 repeatCount
-    `// not a comment` , match i64_ // a // b
-as x_y_z
-{
-    3
-:
-len , 4294967296
-    : u8x
-00	: crc
-,[ 10,
-007 ,3, 00
-/// triple
-// " ++ [27880; 37322]%N ++ runes_of_ascii "
-,""" ++ [128512]%N ++ runes_of_ascii """ , 0123456789,0123456789	] : tag	,	42  :
-// packet A { u8 x, }
-//
-repeatCount , }
-, @lengthOf( f32a
-    ) @lengthOf(
-    stringy ) @calculatedFrom( ""\" ++ [233]%N ++ runes_of_ascii """
-)
-    repeat i64 As// trailing space 
-,	@rightPad (
-    ) repeat  leftPad {
-uint32 crc
-    @calculatedFrom( """ ++ [233]%N ++ runes_of_ascii "t" ++ [233]%N ++ runes_of_ascii """) ,  }
-    , } MetaData Pad {  As
-pack ,
-    } root packet len{@calculatedFrom(  ""\" ++ [233]%N ++ runes_of_ascii """
-) int64 a1@calculatedFrom( ""CRC32"" )// `tick` ""quote"" 'q'
-,
-}
-// c
-")).
-Eval vm_compute in ("<<<M3676>>>" ++ check (runes_of_ascii "MetaData float {
-    stringy leftPad,
-}
-
-root packet a1 {
-    @lengthOf(matchKey)
-    char[] int `
-    `,
-    char[42] body `a\`,
-    @leftPad('0')
-    T {
-        zchar[1] u128 @lengthOf(repeatCount) `
-        `,// trailing space 
-    },
-    @lengthOf(msg_type)
-    repeat uint16 rootA,
-    @rightPad()
-    repeat metadata i64_ `two words`,
-    match leftPad as _x {
-        // @lengthOf(
-        /// triple
-        00 : charz,
-        7 : float,
-        // @lengthOf(
-        ""CRC32"" : float,
-        0123456789 : rootA,
-    },
-    rootA,
-    zchar[42] pack,
-    @lengthOf(trueish)
-    i64 Foo,//x
-    body `" ++ [28040; 24687; 31867; 22411]%N ++ runes_of_ascii "`,
-}
-
-packet T {
-    repeat Packet,
-    // trailing space 
-    // `tick` ""quote"" 'q'
-    char[] x `crlf
-    line`,
-    charz @lengthOf(pack),
-    char[0] As,
-    @calculatedFrom(""" ++ [28040; 24687]%N ++ runes_of_ascii """)
-    MetaDataX,
-}")).
-Eval vm_compute in ("<<<M403>>>" ++ check (runes_of_ascii "  options //x
-{options1= 65535
-; }	root  packet int { match string_ as u8x	{
-0123456789
-    // trailing space 
-    : zchar
-    , } ,
-zchar @calculatedFrom( """" ) `` ,
-    repeat T {  metadata@calculatedFrom(
-""x y"" ) , match
-    a1
-    as metadata { // @lengthOf(
-4294967296 : options1 , ""x y""
-    : i8i8 } , repeat leftPad
-    //
-    {	char[42 ] float , }
-    , }, @tag( 65535)
-    char[ 7
-    ]/// triple
-Pad,trueish,
-/// triple
-//
-Header { // @lengthOf(
-char[4294967296
-    ]
-    /// triple
-    repeatCount @calculatedFrom(""packet"" ) , // packet A { u8 x, }
-}, } MetaData float { repeatCount metadata `crlf
-line` ,asx lengthOf	, char[] roots
-`two words`  ,
-// trailing space 
-//
-string  Pad  ,
-    calculatedFrom
-/// triple
-// @lengthOf(
-zchar , char T
-    `a\`	, } /// triple")).
-Eval vm_compute in ("<<<M3208>>>" ++ check (runes_of_ascii "// top
-root // c0
-packet // c1
-msg_type // c2
-{ // c3
-i64 // c4
-options1 // c5
-, // c6
-@lengthOf( // c7
-f32a // c8
-) // c9
-repeat // c10
-uint16 // c11
-Foo // c12
-, // c13
-@calculatedFrom( // c14
-""x y"" // c15
-) // c16
-repeat // c17
-int64 // c18
-pack // c19
-, // c20
-@leftPad // c21
-( // c22
-' ' // c23
-) // c24
-uint8 // c25
-Foo // c26
-, // c27
-} // c28
-packet // c29
-rootA // c30
-{ // c31
-f32a // c32
-x // c33
-`two words` // c34
-, // c35
-char // c36
-asx // c37
-@lengthOf( // c38
-falsey // c39
-) // c40
-`u8 x,` // c41
-, // c42
-@lengthOf( // c43
-i64_ // c44
-) // c45
-uint16 // c46
-chars // c47
-, // c48
-@tag( // c49
-0 // c50
-) // c51
-string // c52
-_x // c53
-@calculatedFrom( // c54
-""abc"" // c55
-) // c56
-`// not a comment` // c57
-, // c58
-} // c59
-")).
-Eval vm_compute in ("<<<M3761>>>" ++ check (runes_of_ascii "
-
-  MetaData
-	o
-    {	uint8 asx ,  // " ++ [27880; 37322]%N ++ runes_of_ascii "
-
-  }MetaData 
-_x {
-A  Z9_ `a\`	,
-	}
-    packet 
-string_  {
-    repeat
-x_y_z
-f32a,charz 
-	//x
-    // " ++ [27880; 37322]%N ++ runes_of_ascii "
-  	{
-msg_type @lengthOf(
-
-A
-
-)
-
+asx as lengthOf{ """"
+: f32a , }
+,roots {
+f32 A `a\` , i8 trueish @lengthOf(rootA )
     ,}
-	,
-uint16
-    stringy
-,  @calculatedFrom(
-    """ ++ [233]%N ++ runes_of_ascii "t" ++ [233]%N ++ runes_of_ascii """ )	leftPad
-    msg_type ,
-
-    @tag(7 
-)
-
-    @calculatedFrom(
-
-    //	t
-  	""" ++ [28040; 24687]%N ++ runes_of_ascii """
-)
-	i64_
     ,
-repeat
-
-trueish
-    x
-
-`doc`  ,  uint16 metadata	//	t
-    @lengthOf( 
-i8i8
-)  `tab	here` 
-, repeat
-
-    tag Logon
-
-    ,
-repeat repeatCount
-
-metadata
-	`` // a // b
-    	,  // trailing space 
-	}
-packet
-roots { 
-repeat  x_y_z {
-// `tick` ""quote"" 'q'
-	char[ 4294967296	]
-    stringy `line1
-line2`
-	,
-
-uint16
-body
-	,
-}  ,  @leftPad
-
-( ' ')  MetaDataX
-
-    stringy,
-
-} ")).
-Eval vm_compute in ("<<<M700>>>" ++ check (runes_of_ascii "packet tag// " ++ [27880; 37322]%N ++ runes_of_ascii "
-{
-@tag(65535 )//
-zchar[ 3 ]
-    metadata
-, }  root
-packet
-pack{
-@calculatedFrom( ""x y""
-    /// triple
-    ) a1 @calculatedFrom(""1"" ) `say ""hi""` // @lengthOf(
-,
-zchar @lengthOf(	packetx), @lengthOf( // " ++ [128512]%N ++ runes_of_ascii " emoji
-u128 )@tag( 42	) // packet A { u8 x, }
-@tag( 255 )
-    repeat char[7 ]
-    x_y_z `// not a comment`
-,match u128
-as rootA	{ ""packet"": // " ++ [128512]%N ++ runes_of_ascii " emoji
-tag , [""abc""
-    , ""a\""b"" , ""abc""	, 42,
-    ""1"" ,
-7 , ""// no comment"" ]:  matchKey, 007
-:	roots , 00 :
-// " ++ [27880; 37322]%N ++ runes_of_ascii "
-// " ++ [27880; 37322]%N ++ runes_of_ascii "
-i64_
-    , [""// no comment"" ]
-:
-    // c
-    a1 , } ,
-// " ++ [128512]%N ++ runes_of_ascii " emoji
-// @lengthOf(
-repeat
-Logon {
-    char[ 007
-] f32a
-    @lengthOf(	Header)
-//x
-// packet A { u8 x, }
-, } ,
-    // " ++ [128512]%N ++ runes_of_ascii " emoji
-    }")).
-Eval vm_compute in ("<<<M91>>>" ++ check (runes_of_ascii "options{
-T
-    =
-""x y"" ; } packet Z9_ { @leftPad
-    ('0' )
-int16
-Header @calculatedFrom(
-""1""
-    ) , options1 @lengthOf(
-    u8x )
-`// not a comment`
-,
-    @calculatedFrom(""// no comment"" ) @lengthOf(pack //	t
-) Header {
-i32 // trailing space 
-u
-`{ , }`
-, _x	, char[
-    7 ] crc @lengthOf(i64_)  ,
-    }
-// a // b
-// c
-, // `tick` ""quote"" 'q'
-float
-@lengthOf(
-roots ) `it's`  , } packet stringy { @rightPad( '\x00' //
-) @rightPad ( //
-'0' )
-// " ++ [27880; 37322]%N ++ runes_of_ascii "
-// packet A { u8 x, }
-@calculatedFrom( """ ++ [28040; 24687]%N ++ runes_of_ascii """ ) string a1 ,
-    f32
-uint8x // packet A { u8 x, }
-@lengthOf( charz
-// c
-// " ++ [128512]%N ++ runes_of_ascii " emoji
-) `two words`
-,
-int32
-x_y_z	@lengthOf( string_  ) //	t
-,
-}
-")).
-Eval vm_compute in ("<<<M3683>>>" ++ check (runes_of_ascii "  // top
-		root // c0
-	  packet
-    Frame 
-
-// c2
-{  // c3a
-
-// c3b
-    	u8 
-    // c4
-
-	K 	 // c5
-    ,// c6a
-    // c6b
-    Logon	// c7
-first
-	    // c8
-	  ,
-
-// c9
-		match 	 // c10a
-  	// c10b
-    K
-as
-
-    // c12
-      Body{ 	 // c14
-		1	:	Logon 
-      // c17
-    ,// c18
-	2
-
-    : Logout
-,  
-  // c22
-    	}
-,  // c24
-	}
-packet  // c26
-    Logon// c27a
-	// c27b
-  {	// c28a
-  // c28b
-	  string	// c29a
-    	// c29b
-      user 
-	// c30
-  , // c31a
-
-// c31b
-  }// c32a
-// c32b
-
-packet// c33
-    	Logout
-	    // c34
-  {// c35a
-// c35b
-  u16	// c36a
-  	// c36b
-  reason
-    , 
-	// c38
-
-	}
-	    // c39
-")).
-Eval vm_compute in ("<<<M967>>>" ++ check (runes_of_ascii "root
-packet	Logon	{@tag( 3 )// @lengthOf(
-float64
-options1 @calculatedFrom(
-    ""1""
-    ) ,
-match
-    roots
-as // @lengthOf(
-MetaDataX
-    { 0123456789 :
-As , //	t
-[
-    0, ""1"", 0123456789,
-""CRC32"" ,
-7
-    // " ++ [27880; 37322]%N ++ runes_of_ascii "
-    ,	""" ++ [128512]%N ++ runes_of_ascii """
-, ""CRC32""
-]
-: x  ,
-} ,  @tag( //x
-007 ) string calculatedFrom
-@calculatedFrom(""a\\"" ) `two words` , @lengthOf(	uint8x )trueish	`{ , }` , // trailing space 
-} // @lengthOf(
-root
-    packet rootA { match As as	As { // `tick` ""quote"" 'q'
-10 : MetaDataX /// triple
-, ""{,}"" :body
-} , @tag( 4294967296 )	_x
-    @lengthOf(roots// " ++ [128512]%N ++ runes_of_ascii " emoji
-) , packetx ``,
-    } // c")).
-Eval vm_compute in ("<<<M4303>>>" ++ check (runes_of_ascii "  packet 
-u128
-
-{  string	MetaDataX
-    @lengthOf(
-	matchKey
-
+options1
+    @lengthOf(_x
     )
+    , /// triple
+@lengthOf( asx// `tick` ""quote"" 'q'
+)
+    charz
+    // " ++ [27880; 37322]%N ++ runes_of_ascii "
+    ,
+    zchar[ 10 ] a1
+    @calculatedFrom(
+    ""// no comment"")
+`say ""hi""`
+, //x
+uint16 x @calculatedFrom( ""a\\"" )	,}")).
+Eval vm_compute in ("<<<M354>>>" ++ check (runes_of_ascii "// a // b
+packet chars {
+    i64_ tag `say ""hi""` , }
+// " ++ [128512]%N ++ runes_of_ascii " emoji
+// `tick` ""quote"" 'q'
+packet tag {
+}// c
+packet roots
+    { repeat //x
+x_y_z `
+`	, } packet lengthOf { // c
+i64 int`{ , }` , @lengthOf( trueish
+    ) @lengthOf( stringy // packet A { u8 x, }
+) // @lengthOf(
+repeat
+x repeatCount`u8 x,`,
+    char[]
+rootA ,uint16 int @calculatedFrom( // " ++ [128512]%N ++ runes_of_ascii " emoji
+""\" ++ [233]%N ++ runes_of_ascii """ ) `say ""hi""`/// triple
+,@lengthOf(
+string_
+    // a // b
+    )char[]
+    int @calculatedFrom(
+""a\\"" )  , @tag( 0 )@calculatedFrom(""\n""  )// " ++ [128512]%N ++ runes_of_ascii " emoji
+i32
+string_  @lengthOf(
+    falsey ) `say ""hi""` ,@tag(3
+) @lengthOf( BodyLength
+) repeat Z9_ {match// " ++ [27880; 37322]%N ++ runes_of_ascii "
+T // @lengthOf(
+as charz { // packet A { u8 x, }
+[ 255
+, ""a\""b"" ,
+    """" , 00
+    , 0123456789 ,""\n"" , ""\" ++ [233]%N ++ runes_of_ascii """//x
+]:
+x_y_z
+3 : Foo ,
+    // @lengthOf(
+    }
+    ,char[ 4294967296 ] calculatedFrom@lengthOf( Z9_ )	, } , i64
+    trueish
+    @lengthOf( /// triple
+T) `" ++ [233]%N ++ runes_of_ascii "` , @lengthOf( body
+)
+@lengthOf(
+matchKey // `tick` ""quote"" 'q'
+) tag trueish `` , } packet Foo {
+}")).
+Eval vm_compute in ("<<<M244>>>" ++ check (runes_of_ascii "MetaData falsey { string tag
+`// not a comment` , } packet x
+{ char[]int @lengthOf( u)
+`u8 x,`
+    ,
+@calculatedFrom( ""abc"" ) @leftPad ('0')@tag( 255) repeat T {
+f32a
+`" ++ [233]%N ++ runes_of_ascii "`  ,
+u128 @calculatedFrom( """ ++ [128512]%N ++ runes_of_ascii """ ) // a // b
+,
+    // c
+    repeat
+float { char[] x ,}
+    ,
+},@lengthOf( Header
+)string_ @lengthOf(Logon )//	t
+, body
+Pad `" ++ [28040; 24687; 31867; 22411]%N ++ runes_of_ascii "`,
+}packet matchKey { }
+    //	t
+    packet options1	{
+    string	a1 @calculatedFrom( ""{,}"" ) ,}	packet x {match a1 as i64_ { 1
+: Packet , ""abc"": crc ,
+    }
+    , int8
+calculatedFrom@lengthOf( i8i8
+    //	t
+    ),
+    @calculatedFrom( """"	)
+@calculatedFrom( """ ++ [128512]%N ++ runes_of_ascii """ ) lengthOf
+`a\`, char[1  ] u8x , zchar[ 007]// packet A { u8 x, }
+metadata  @calculatedFrom(// a // b
+""\n"" ) , @lengthOf(
+len) @rightPad ( ) char[
+    // " ++ [27880; 37322]%N ++ runes_of_ascii "
+    10 // packet A { u8 x, }
+]	Pad , repeat options1 `{ , }`,
+    char[] tag @lengthOf( Packet ),}
+")).
+Eval vm_compute in ("<<<M1654>>>" ++ check (runes_of_ascii "packet chars {
+}// c
+
+packet len {
+    repeat char[] Foo,
+    @rightPad('0')
+    zchar[007] a1 `say ""hi""`,
+    repeat BodyLength leftPad,
+}
+
+root packet u8x {
+    f64 lengthOf @calculatedFrom(""CRC32""),
+    string zchar @lengthOf(int) `crlf
+        line`,
+    int calculatedFrom,
+    @lengthOf(As)
+    match falsey as asx {
+        65535 : _x,
+        [1] : u,
+        007 : uint8x,
+        00 : f32a,
+        """ ++ [233]%N ++ runes_of_ascii "t" ++ [233]%N ++ runes_of_ascii """ : Packet,
+        [42, ""a\""b""] : len,
+    },
+    @lengthOf(stringy)
+    @calculatedFrom(""1"")
+    repeat A {
+        char[] lengthOf `it's`,
+    },
+    _x `" ++ [28040; 24687; 31867; 22411]%N ++ runes_of_ascii "`,
+    @leftPad('0')
+    match Foo as crc {
+        10 : trueish,
+        42 : Pad,
+        [4294967296, ""// no comment"", ""{,}""] : float,
+    },
+    @lengthOf(u8x)
+    a1 @calculatedFrom(""\" ++ [233]%N ++ runes_of_ascii """),
+}")).
+Eval vm_compute in ("<<<M1739>>>" ++ check (runes_of_ascii "
+
+  options{ 
+StringPrefixLenType =
+u16
+	; ArrayPrefixLenType 
+= u32; FixedStringPadFromLeft=false ;
+    FixedStringPadChar =
+'0' ;
+
+}  packet  Logout{	f64 
+f1
+, 
+i16
+Note
+,	@rightPad ( '\x00'
+
+)char[
+11 ]
+
+    Flags
+,
+
+    }	packet
+Cancel
+    {
+	float64 msgKind,} packet Reject{ InQty43
+{
+	float32 sym,
+	char[
+10	]
+Tail
+,
+
+    uint8 
+venue ,uint16 f1
+
+    , char[ 
+9
+]
+    Acct
 
 , 
-@lengthOf(  calculatedFrom)
-// " ++ [128512]%N ++ runes_of_ascii " emoji
+}
+, }
+	packet
+Trade
+	{	char[]x
 
-// " ++ [128512]%N ++ runes_of_ascii " emoji
-    string// packet A { u8 x, }
-  uint8x`it's`
-
-    ,  As
-@calculatedFrom(
-
-""" ++ [233]%N ++ runes_of_ascii "t" ++ [233]%N ++ runes_of_ascii """ )
 ,
-    } MetaData	repeatCount
+	zchar[ 
+6
+]
+Note,repeat
+Reject , 
+}root
+    packet
+Order
 
     { 
-        // c
-zchar[	7	]
-	msg_type	// " ++ [128512]%N ++ runes_of_ascii " emoji
-	  , 	 // @lengthOf(
-string
+Cancel
+, Logout,
+u64
+Acct ,u32
+OrderId ,
+match  OrderId
+as
 
-    trueish
-    , u
+Body { [
+127,
 
-As
-
-`doc`, zchar	T
-, string	roots// c
-`doc` , }
-
-    root  packet	o 	 //
-{
-    repeat  zchar[
-    007 
-// a // b
-	//x
-
-  ]  u8x
-
-, 
-repeat 
-char[
-4294967296
-]
-x
-	,
-
-    u8x`{ , }`
-
+    70  ]  :
+Reject
 ,
-    } ")).
-Eval vm_compute in ("<<<M400>>>" ++ check (runes_of_ascii "packet
-i64_ {
-@lengthOf( Foo ) // `tick` ""quote"" 'q'
-@lengthOf(
-    calculatedFrom) o
-    /// triple
-    @calculatedFrom( ""{,}"" ) , uint16 lengthOf@calculatedFrom( // a // b
-""" ++ [128512]%N ++ runes_of_ascii """) , char[ 007 ] trueish ,  @tag(
-    // c
-    00
-    // `tick` ""quote"" 'q'
-    )	@tag( //	t
-007 )
-// a // b
-// " ++ [128512]%N ++ runes_of_ascii " emoji
-float @calculatedFrom( ""\n"" ),
-charz A
-    ,Logon @calculatedFrom( ""// no comment""  )
-`
-` // " ++ [27880; 37322]%N ++ runes_of_ascii "
-,@lengthOf( msg_type ) BodyLength As `a\` , zchar[// @lengthOf(
-10]
-zchar @calculatedFrom( """" // trailing space 
-)
-`doc`, }
-")).
-Eval vm_compute in ("<<<M1393>>>" ++ check (runes_of_ascii "MetaData T {
-//
-// @lengthOf(
-u64 BodyLength `say ""hi""` , i16
-a1,
-    int64 msg_type `// not a comment`
-, x_y_z zchar,u64
-T, float32 calculatedFrom
-,
-    } packet Logon{ @lengthOf( options1 )
-    int64 x @lengthOf(
-Z9_ )  `{ , }`,} packet
-    lengthOf{
-    // `tick` ""quote"" 'q'
-    @calculatedFrom(""`tick`"" ) A // `tick` ""quote"" 'q'
-`" ++ [233]%N ++ runes_of_ascii "`// `tick` ""quote"" 'q'
-, falsey lengthOf , @lengthOf( x_y_z)  @lengthOf( options1 ) char[ 4294967296
-    ]
-body @calculatedFrom( """ ++ [28040; 24687]%N ++ runes_of_ascii """)
-    // c
-    ,}
-")).
-Eval vm_compute in ("<<<M3591>>>" ++ check (runes_of_ascii "packet charz {
-    @lengthOf(x_y_z)
-    match msg_type as msg_type {
-        ""a	b"" : packetx,
-    },
-    repeat zchar[255] i8i8 `tab	here`,
-    char[255] i8i8 @lengthOf(i64_),
-}
+177	: Trade
 
-root packet matchKey {
-    zchar[3] body `crlf
-        line`,
-    @calculatedFrom(""x y"")
-    char[00] leftPad `u8 x,`,
-}// packet A { u8 x, }
-
-packet u8x {
-    @tag(00)
-    metadata {
-        repeat lengthOf {
-            zchar[0] _x @calculatedFrom(""it's"") `say ""hi""`,
-        },
-    },
-}")).
-Eval vm_compute in ("<<<M4307>>>" ++ check (runes_of_ascii "
-
-  packet x_y_z {
-	@calculatedFrom( """"
-    )
-    repeat 
-    // `tick` ""quote"" 'q'
-	// `tick` ""quote"" 'q'
-  _x 
-f32a
-, @calculatedFrom(""it's"" ) chars 
-      // c
-  // `tick` ""quote"" 'q'
-,
-    int32
-u8x 	 // `tick` ""quote"" 'q'
-    ,  // c
-	  }options 
-      // " ++ [128512]%N ++ runes_of_ascii " emoji
-	{  crc
-
-    =
-
-    """ ++ [233]%N ++ runes_of_ascii "t" ++ [233]%N ++ runes_of_ascii """
-
-    }
-root 
-packet
-
-string_ { }
-packet x
-{
-u8x
-
-Packet  , i32
-	float 
-, 
-}
-options
-
-    {
-	Pad
-
-    = 
-4294967296
-;leftPad
-=  """ ++ [233]%N ++ runes_of_ascii "t" ++ [233]%N ++ runes_of_ascii """
-	}")).
-Eval vm_compute in ("<<<M817>>>" ++ check (runes_of_ascii "
-packet As //x
-{ repeatCount @lengthOf(tag // trailing space 
-)	, trueish {i64 a1 //	t
-,Z9_ @calculatedFrom(""CRC32""	) , char[
-    42 ] rootA // c
-, repeat/// triple
-u128 _x ,}
-, @lengthOf(
-    string_ //	t
-) i8
-    falsey ,	@leftPad (' ' ) @rightPad (' ' ) match // @lengthOf(
-calculatedFrom as  leftPad { 65535 :
-leftPad
-[
-00
-,
-1 , ""\n"" ,
-1 ,3
-// " ++ [27880; 37322]%N ++ runes_of_ascii "
-// a // b
-]
-: repeatCount , [
-    // " ++ [27880; 37322]%N ++ runes_of_ascii "
-    """ ++ [128512]%N ++ runes_of_ascii """ ,42 ] : i8i8, },} // " ++ [128512]%N ++ runes_of_ascii " emoji")).
-Eval vm_compute in ("<<<M100>>>" ++ check (runes_of_ascii "packet roots {
-    } packet metadata {
-    @lengthOf( u) @tag(00 )
-@lengthOf( Pad )  T @lengthOf( pack ),@rightPad
-( '0' )lengthOf , @lengthOf(  u) char[]
-    //
-    A ,
-match  Packet as // `tick` ""quote"" 'q'
-a1{007
-: leftPad 65535
-    :// trailing space 
-msg_type , ""a\\"" :
-// " ++ [128512]%N ++ runes_of_ascii " emoji
-// @lengthOf(
-Z9_ """ ++ [233]%N ++ runes_of_ascii "t" ++ [233]%N ++ runes_of_ascii """
-: A , ""// no comment""	:x_y_z,
-4294967296 : a1
-    ,/// triple
-} ,f32	T
-    , f64 roots	@lengthOf( int ), }")).
-Eval vm_compute in ("<<<M3472>>>" ++ check (runes_of_ascii "// top
-packet // c0a
-  // c0b
-A { // c2
-u8 // c3a
-  // c3b
-a
-    // c4
-, // c5
-} // c6a
-  // c6b
-packet B // c8a
-  // c8b
-{
-    // c9
-u16 b // c11
-, // c12a
-  // c12b
-} root // c14
-packet // c15
-P { // c17
-u8 // c18a
-  // c18b
-K , // c20
-match // c21
-K
-    // c22
-as // c23
-M { // c25
-1
-    // c26
-: // c27a
-  // c27b
-A // c28
-, 1 // c30
-: B // c32a
-  // c32b
-, // c33a
-  // c33b
-} // c34
-, // c35
-} ")).
-Eval vm_compute in ("<<<M90>>>" ++ check (runes_of_ascii "options{ calculatedFrom
-= '0'; }
-root
-    // " ++ [128512]%N ++ runes_of_ascii " emoji
-    packet metadata{i64 float@calculatedFrom( ""1"" )	,	@rightPad ( // trailing space 
-) Logon u `crlf
-line` , // trailing space 
-falsey Packet `line1
-line2` , u32	a1  `tab	here`, } // " ++ [128512]%N ++ runes_of_ascii " emoji
-options { lengthOf
-    // packet A { u8 x, }
-    = '\x00'
-msg_type =
-uint8;repeatCount
-    // `tick` ""quote"" 'q'
-    =
-0123456789 ; } //x")).
-Eval vm_compute in ("<<<M203>>>" ++ check (runes_of_ascii "/// triple
-packet Logon
-{ char[
-1
-    ] T // packet A { u8 x, }
-,repeat f32a{ repeat
-    options1 , //x
-zchar[ 007
-    ]Z9_
-    ,  u64 packetx, // @lengthOf(
-charz  ,
-} ,crc  Packet ,
-@lengthOf( charz //x
-) @leftPad (
-    ' ' ) float64 i8i8`{ , }`
-//	t
-//x
-, }
-MetaData // a // b
-a1  {
-    u8 len  `say ""hi""` ,
-len Logon //x
-`` ,char[] pack
-,
-    char
-    body, }
-")).
-Eval vm_compute in ("<<<M543>>>" ++ check (runes_of_ascii "packet string_ // " ++ [27880; 37322]%N ++ runes_of_ascii "
-{ match
-    //	t
-    Pad as Z9_{
-    [42 ] :trueish ,
-    // trailing space 
-    }
-, float32
-x `u8 x,`	, @leftPad	( '\x00' )	o @lengthOf(
-    x_y_z )
-, msg_type @lengthOf(
-//x
-// `tick` ""quote"" 'q'
-u ) `line1
-line2`// `tick` ""quote"" 'q'
-, @calculatedFrom(""a\\"" )  int @calculatedFrom( ""packet"" ),  BodyLength `// not a comment` ,}
-")).
-Eval vm_compute in ("<<<M122>>>" ++ check (runes_of_ascii "root packet u128{} root packet
-charz {// packet A { u8 x, }
-@tag( 7
-    )MetaDataX	, _x { uint32
-As,
-    charz ,}	,
-len {  int64	u128 , repeat falsey
-{x_y_z@lengthOf(
-asx )
-//	t
-// c
-, // c
-}
-,repeatCount
-    {	metadata
-@calculatedFrom( ""\n""
-) `doc` , Logon Foo
-// trailing space 
-// " ++ [128512]%N ++ runes_of_ascii " emoji
-,} // " ++ [27880; 37322]%N ++ runes_of_ascii "
-,
-float  rootA , }
-, }
-// a // b
-")).
-Eval vm_compute in ("<<<M488>>>" ++ check (runes_of_ascii "root packet // " ++ [128512]%N ++ runes_of_ascii " emoji
-charz
-    { @calculatedFrom( ""x y"" ) zchar[ 0 ] u128
-    @calculatedFrom( ""x y"" ) , u16 MetaDataX ,
-zchar[ 0123456789] u128 , uint16 u128
-,  @lengthOf(
-    int
-) _x Foo
-    `
-`,zchar[	00
-    ]
-o
-@calculatedFrom( /// triple
-""packet"" )  ,rootA `doc`,
-    char[]msg_type @calculatedFrom(""" ++ [233]%N ++ runes_of_ascii "t" ++ [233]%N ++ runes_of_ascii """
-) , }
-")).
-Eval vm_compute in ("<<<M449>>>" ++ check (runes_of_ascii "//x
-packet int {	repeat options1 falsey , @lengthOf( // " ++ [128512]%N ++ runes_of_ascii " emoji
-roots)	f32
-    Header @lengthOf(leftPad
-) ,repeat crc uint8x , falsey {
-    _x	body `
-` , repeat
-Packet	Foo
-    , uint64
-As @calculatedFrom( ""1""
-) `
-`
-,
-    repeat Header,
-    } , char[
-7	]
-    /// triple
-    Logon @calculatedFrom( ""a\\"" )	, }
-")).
-Eval vm_compute in ("<<<M1495>>>" ++ check (runes_of_ascii "root packet Foo // " ++ [128512]%N ++ runes_of_ascii " emoji
-{ } options {
-    // a // b
-    tag // `tick` ""quote"" 'q'
-= //	t
-""""
-    ; u8x = zchar[0  ] }
-MetaData MetaData
-    int {zchar[ 10]
-lengthOf	`` , i64 u8x`// not a comment` ,MetaDataX pack// `tick` ""quote"" 'q'
-`crlf
-line`
-, Logon charz `crlf
-line`
-    ,
-    // a // b
-    }
-")).
-Eval vm_compute in ("<<<M1457>>>" ++ check (runes_of_ascii "root packet Foo // " ++ [128512]%N ++ runes_of_ascii " emoji
-{ } options {
-    // a // b
-    tag // `tick` ""quote"" 'q'
-= //	t
-false
-    ; u8x = zchar[0  ] }
-MetaData
-    int {zchar[ 10]
-lengthOf	`` , i64 u8x`// not a comment` ,MetaDataX pack// `tick` ""quote"" 'q'
-`crlf
-line`
-, Logon charz `crlf
-line`
-    ,
-    // a // b
-    }
-")).
-Eval vm_compute in ("<<<M1608>>>" ++ check (runes_of_ascii "root packet Foo // " ++ [128512]%N ++ runes_of_ascii " emoji
-{ } options {
-    // a // b
-    tag // `tick` ""quote"" 'q'
-= //	t
-""""
-    ; u8x = ? zchar[0  ] }
-MetaData
-    int {zchar[ 10]
-lengthOf	`` , i64 u8x`// not a comment` ,MetaDataX pack// `tick` ""quote"" 'q'
-`crlf
-line`
-, Logon charz `crlf
-line`
-    ,
-    // a // b
-    }
-")).
-Eval vm_compute in ("<<<M1456>>>" ++ check (runes_of_ascii "root packet Foo // " ++ [128512]%N ++ runes_of_ascii " emoji
-{ } options {
-    // a // b
-    tag // `tick` ""quote"" 'q'
-= //	t
-;
-    """" u8x = zchar[0  ] }
-MetaData
-    int {zchar[ 10]
-lengthOf	`` , i64 u8x`// not a comment` ,MetaDataX pack// `tick` ""quote"" 'q'
-`crlf
-line`
-, Logon charz `crlf
-line`
-    ,
-    // a // b
-    }
-")).
-Eval vm_compute in ("<<<M1270>>>" ++ check (runes_of_ascii "root
-    // trailing space 
-    packet
-//	t
-//
-trueish { @tag(
-0)
-@lengthOf( float) @lengthOf(
-trueish) repeat uint8 Logon
-    `line1
-line2`
-,  char[]
-body @lengthOf(A )
-`
-`,
-// " ++ [128512]%N ++ runes_of_ascii " emoji
-// c
-repeat
-    // packet A { u8 x, }
-    char[ 00
-    ]MetaDataX , @leftPad (  ) repeat int8 pack
-,}
-")).
-Eval vm_compute in ("<<<M1413>>>" ++ check (runes_of_ascii "; packet Foo // " ++ [128512]%N ++ runes_of_ascii " emoji
-{ } options {
-    // a // b
-    tag // `tick` ""quote"" 'q'
-= //	t
-""""
-    ; u8x = zchar[0  ] }
-MetaData
-    int {zchar[ 10]
-lengthOf	`` , i64 u8x`// not a comment` ,MetaDataX pack// `tick` ""quote"" 'q'
-`crlf
-line`
-, Logon charz `crlf
-line`
-    ,
-    // a // b
-    }
-")).
-Eval vm_compute in ("<<<M1434>>>" ++ check (runes_of_ascii "root packet Foo // " ++ [128512]%N ++ runes_of_ascii " emoji
-{ }  {
-    // a // b
-    tag // `tick` ""quote"" 'q'
-= //	t
-""""
-    ; u8x = zchar[0  ] }
-MetaData
-    int {zchar[ 10]
-lengthOf	`` , i64 u8x`// not a comment` ,MetaDataX pack// `tick` ""quote"" 'q'
-`crlf
-line`
-, Logon charz `crlf
-line`
-    ,
-    // a // b
-    }
-")).
-Eval vm_compute in ("<<<M578>>>" ++ check (runes_of_ascii "packet chars
-    {  rootA i64_
-, @calculatedFrom(
-    ""1"" ) len @lengthOf(A )`two words`
-,repeat float32 leftPad
-    ,
-match	Z9_ as Pad{
-[
-""" ++ [28040; 24687]%N ++ runes_of_ascii """ // a // b
-, ""\" ++ [233]%N ++ runes_of_ascii """	,	00 ,  10 ] : As
-, }  ,
-    }MetaData matchKey {
-    leftPad uint8x`a\` , body x_y_z  ,} packet
-    tag
-{}")).
-Eval vm_compute in ("<<<M949>>>" ++ check (runes_of_ascii "options
-    { } packet repeatCount { Foo // " ++ [128512]%N ++ runes_of_ascii " emoji
-T ,_x `// not a comment` , @calculatedFrom(//	t
-""x y""  ) repeat
-    float32 uint8x `doc` ,char
-msg_type
-@lengthOf( // " ++ [27880; 37322]%N ++ runes_of_ascii "
-stringy ) , @lengthOf( int) repeat float `two words`, }MetaData u8x
-// " ++ [27880; 37322]%N ++ runes_of_ascii "
-// a // b
-{	}")).
-Eval vm_compute in ("<<<M3757>>>" ++ check (runes_of_ascii "options {
-    As = char[007];
-    _x = 1;
-    matchKey = true;
-    Logon = ' ';
-    stringy = zchar[007];
-}
-
-root packet MetaDataX {
-    //x
-    match leftPad as Logon {
-        255 : packetx,
-        [0123456789] : x_y_z,
-        10 : rootA,
-    },
-}")).
-Eval vm_compute in ("<<<M352>>>" ++ check (runes_of_ascii "
-root packet
-    // `tick` ""quote"" 'q'
-    BodyLength { metadata
-/// triple
-// `tick` ""quote"" 'q'
-{
-calculatedFrom,zchar[ 007 ] msg_type@lengthOf( int )
-`say ""hi""` , chars uint8x , string
-As @calculatedFrom( ""a	b""
-)`
-` ,/// triple
-} ,  }
-")).
-Eval vm_compute in ("<<<M920>>>" ++ check (runes_of_ascii "packet len
-    { repeat
-metadata
-    ,}
-root packet
-string_ { @calculatedFrom(""\n""	)  i16 Z9_ @calculatedFrom(
-    // a // b
-    ""a\\"") // packet A { u8 x, }
-,
-metadata @calculatedFrom( ""CRC32"")//
-`u8 x,`,f64 options1 // " ++ [27880; 37322]%N ++ runes_of_ascii "
-,	} 	 ")).
-Eval vm_compute in ("<<<M2316>>>" ++ check (runes_of_ascii "MetaData Packet { }packet	asx  { @lengthOf( asx) falsey`crlf
-line`
-,
-    }
-    packet x	{uint32// @lengthOf(
-rootA	,u32 options1 options1 `say ""hi""` , @tag( 7
-    )// packet A { u8 x, }
-msg_type @lengthOf(
-stringy	)	, }
-
-")).
-Eval vm_compute in ("<<<M262>>>" ++ check (runes_of_ascii "packet charz
-{ @lengthOf(leftPad ) charz  @calculatedFrom( ""a\""b""
-)`it's`	, char[]
-Foo ,	uint8 MetaDataX `u8 x,`
-    ,int64 i8i8 , @calculatedFrom( ""a	b""
-) zchar[ // trailing space 
-7 ] string_, } MetaData Pad{
-    }")).
-Eval vm_compute in ("<<<M2371>>>" ++ check (runes_of_ascii "MetaData Packet { }packet	asx  { @lengthOf( asx) falsey`crlf
-line`
-,
-    }
-    packet x	{uint32// @lengthOf(
-rootA	,u32 options1 `say ""hi""` , @tag( 7
-    )// packet A { u8 x, }
-msg_type @lengthOf(
-stringy	)	, } }
-
-")).
-Eval vm_compute in ("<<<M2262>>>" ++ check (runes_of_ascii "MetaData Packet { }packet	asx  { @lengthOf( asx) `crlf
-line`falsey
-,
-    }
-    packet x	{uint32// @lengthOf(
-rootA	,u32 options1 `say ""hi""` , @tag( 7
-    )// packet A { u8 x, }
-msg_type @lengthOf(
-stringy	)	, }
-
-")).
-Eval vm_compute in ("<<<M2275>>>" ++ check (runes_of_ascii "MetaData Packet { }packet	asx  { @lengthOf( asx) falsey`crlf
-line`
-,
-    
-    packet x	{uint32// @lengthOf(
-rootA	,u32 options1 `say ""hi""` , @tag( 7
-    )// packet A { u8 x, }
-msg_type @lengthOf(
-stringy	)	, }
-
-")).
-Eval vm_compute in ("<<<M27>>>" ++ check (runes_of_ascii "packet
-    MetaDataX {
-    match Header as // a // b
-zchar { 0
-: pack	[ 42
-// packet A { u8 x, }
-// c
-,	65535 ]
+    , 58: Logout
+    , 
+75 
 :
-crc } , // @lengthOf(
-@tag(
-    1 )@rightPad (' ' // " ++ [27880; 37322]%N ++ runes_of_ascii "
-)
-int64  Foo, } // packet A { u8 x, }")).
-Eval vm_compute in ("<<<M2323>>>" ++ check (runes_of_ascii "MetaData Packet { }packet	asx  { @lengthOf( asx) falsey`crlf
-line`
-,
-    }
-    packet x	{uint32// @lengthOf(
-rootA	,u32 options1 { , @tag( 7
-    )// packet A { u8 x, }
-msg_type @lengthOf(
-stringy	)	, }
+Cancel  ,
+}
+	,
+	u32 
+Tail
 
+@calculatedFrom(
+""CR\
+C32""
+	), }")).
+Eval vm_compute in ("<<<M1460>>>" ++ check (runes_of_ascii "options {
+    LittleEndian = true;
+    FixedStringPadFromLeft = true;
+    FixedStringPadChar = '0';
+}
+packet Trade {
+    string clOrdID,
+    char[] Px,
+    u32 x,
+}
+packet Reject {
+    int32 Side2,
+    repeat char[3] clOrdID,
+    i32 tag7,
+}
+packet Leg {
+}
+root packet Quote {
+    string Side2,
+    string lastPx,
+    InSym58 {
+        int16 OrderId,
+        Reject,
+        i8 Qty,
+        i64 venue,
+        f32 Note,
+    },
+    char[] count,
+    zchar[9] price,
+    u16 Qty,
+    match Qty as Body {
+        69 : Leg,
+        48 : Trade,
+        51 : Reject,
+    },
+    u16 Acct @calculatedFrom(""CR\
+C32""),
+}
 ")).
-Eval vm_compute in ("<<<M3688>>>" ++ check (runes_of_ascii "
+Eval vm_compute in ("<<<M159>>>" ++ check (runes_of_ascii "packet BodyLength
+    { repeat string As `{ , }`
+,	@tag(4294967296 ) match Pad as
+lengthOf { //	t
+007	: // `tick` ""quote"" 'q'
+i8i8 /// triple
+,""a\""b"": //x
+msg_type,	}, repeat
+    uint32 Z9_ , @tag( 00 )// `tick` ""quote"" 'q'
+charz
+    , string
+    // trailing space 
+    i8i8 // packet A { u8 x, }
+@lengthOf( BodyLength ) ,@calculatedFrom(
+    ""{,}""  )
+    // a // b
+    @leftPad// " ++ [27880; 37322]%N ++ runes_of_ascii "
+( )
+leftPad metadata  ,
+//
+// " ++ [128512]%N ++ runes_of_ascii " emoji
+string i8i8 ``
+    , uint64 trueish@calculatedFrom(
+""1""
+/// triple
+// " ++ [27880; 37322]%N ++ runes_of_ascii "
+) `
+`, }")).
+Eval vm_compute in ("<<<M1781>>>" ++ check (runes_of_ascii "MetaData stringy
+        //x
+	  {A
+MetaDataX
+
+    , }
+    packet x
+
+{	@calculatedFrom(/// triple
+	  """"
+) char[]
+body `` 
+    /// triple
+
+  // c
+
+	,
+	matchKey @lengthOf( 
+uint8x )  ,
+	} 	 // packet A { u8 x, }
+options { 
+T
+    // `tick` ""quote"" 'q'
+    	// trailing space 
+	  =true
+;o  // packet A { u8 x, }
+	= 
+
+    // c
+//	t
+    '0'
+
+;
+asx 
+	    //
+=4294967296 
+x =  ""CRC32""o  = 
+zchar[ 7
+
+]
+}options	{/// triple
+  As 
+=	false; } //x
+ 
+")).
+Eval vm_compute in ("<<<M1545>>>" ++ check (runes_of_ascii "packet float {
+    // c
+}
+
+packet u128 {
+    @calculatedFrom(""1"")
+    asx x_y_z `" ++ [28040; 24687; 31867; 22411]%N ++ runes_of_ascii "`,
+}
+
+root packet u8x {
+    repeat uint8x T,
+}
+
+packet leftPad {
+    i64_,
+    @leftPad('0')
+    repeat tag,
+    repeat uint8x {
+        matchKey @calculatedFrom(""abc""),
+        string charz,
+    },
+    @rightPad()
+    zchar[10] charz @calculatedFrom(""" ++ [128512]%N ++ runes_of_ascii """) `// not a comment`,// trailing space 
+}
+// @lengthOf(")).
+Eval vm_compute in ("<<<M1858>>>" ++ check (runes_of_ascii "options {
+    BodyLength = ""{,}""
+    tag = ""// no comment"";
+}
+
+options {
+    charz = '\x00';// a // b
+    repeatCount = 255;
+    _x = """ ++ [128512]%N ++ runes_of_ascii """;
+    Foo = '0'
+    a1 = '0'
+    //x
+    //
+}
+
+root packet falsey {
+    i64 packetx @lengthOf(Header) `" ++ [28040; 24687; 31867; 22411]%N ++ runes_of_ascii "`,
+    len @lengthOf(roots) `a\`,
+    zchar @lengthOf(MetaDataX) `line1
+        line2`,
+}// packet A { u8 x, }")).
+Eval vm_compute in ("<<<M1819>>>" ++ check (runes_of_ascii "MetaData u8x {
+    packetx len `crlf
+    line`,
+    char[255] calculatedFrom `" ++ [28040; 24687; 31867; 22411]%N ++ runes_of_ascii "`,
+    float64 MetaDataX `say ""hi""`,
+    BodyLength charz `crlf
+    line`,
+}
+
+packet lengthOf {
+    //	t
+    @tag(4294967296)
+    uint8x @calculatedFrom(""\n"") `" ++ [28040; 24687; 31867; 22411]%N ++ runes_of_ascii "`,
+    char calculatedFrom @calculatedFrom(""" ++ [28040; 24687]%N ++ runes_of_ascii """) `two words`,
+}")).
+Eval vm_compute in ("<<<M341>>>" ++ check (runes_of_ascii "options { leftPad
+    = 1
+    ;	leftPad= char[]
+    // c
+    MetaDataX = false// @lengthOf(
+u =
+'\x00'roots =10
+} packet
+A { char[
+    // packet A { u8 x, }
+    10] o ,  match  a1 as T {
+// @lengthOf(
+//	t
+65535 :	Z9_ 0 : _x ,} ,	}
+    packet
+    Foo {repeat i64_ `two words`//
+, }
+")).
+Eval vm_compute in ("<<<M1470>>>" ++ check (runes_of_ascii "
 
   packet
 
-x_y_z 
-{
-}packet
+    Sub {u8
+	a ,  u32
 
-Logon {
-repeat
-i8 
-int,	}
-	root
+SubSum
+    @calculatedFrom(	""CRC16"" )
+,} root
+	packet
+    Frame { u16
+    MsgType
 
-    packet stringy{ 
-char
-	chars	,
+,
+u16 BodyLen @lengthOf(	Body	)
 
-    char[]
-    a1
-
-    @calculatedFrom(""// no comment""
-
-)`// not a comment`,
-string  Logon,}")).
-Eval vm_compute in ("<<<M751>>>" ++ check (runes_of_ascii "options
-// " ++ [128512]%N ++ runes_of_ascii " emoji
-// " ++ [128512]%N ++ runes_of_ascii " emoji
-{options1	=""{,}"" //
-} options
-{ packetx = '0' ;roots
-    =4294967296 As=	""CRC32"" ; chars
-// trailing space 
-// packet A { u8 x, }
-=//	t
-7; i8i8 = zchar[ 255	] }")).
-Eval vm_compute in ("<<<M705>>>" ++ check (runes_of_ascii "  options { x=zchar[ 42 ]
-//	t
-// a // b
-;  }
-// @lengthOf(
-// trailing space 
-packet
-matchKey { } options{ Header /// triple
-= char[] leftPad =
-    false charz = true; Header = 1 }")).
-Eval vm_compute in ("<<<M3639>>>" ++ check (runes_of_ascii "
-packet A {
-    match k 
-as
-    n 
-{
-	[
-1 ,	""bb""
+,Sub Body
+	,  string
+note,u32
+    Checksum
+    @calculatedFrom( 
+""CRC16"")
+,
+u8	tail
 ,
 
-    007  ,
-""d""	,
+}
+")).
+Eval vm_compute in ("<<<M457>>>" ++ check (runes_of_ascii "options
+{
+matchKey = 42/// triple
+x='0' ;
+// packet A { u8 x, }
+//
+charz
+=
+// packet A { u8 x, }
+// trailing space 
+true  ; } MetaData MetaData BodyLength
+{
+uint8
+pack,zchar[ 1]float ,  float32 x_y_z `` ,u32
+_x,i16 body  , }
+")).
+Eval vm_compute in ("<<<M532>>>" ++ check (runes_of_ascii "options
+{
+matchKey = 42/// triple
+x='0' ;
+// packet A { u8 x, }
+//
+charz
+=
+// packet A { u8 x, }
+// trailing space 
+true  ; } MetaData BodyLength
+{
+uint8
+pack,zchar[ 1]float ,  float32 x_y_z `` ,u32 u32
+_x,i16 body  , }
+")).
+Eval vm_compute in ("<<<M562>>>" ++ check (runes_of_ascii "options
+{
+matchKey = 42/// triple
+x='0' ;
+// packet A { u8 x, }
+//
+charz
+=
+// packet A { u8 x, }
+// trailing space 
+true  ; } MetaData BodyLength
+{
+uint8
+pack,zchar[ 1]float ,  float32 x_y_z `` ,u32
+_x,i16 body  , } }
+")).
+Eval vm_compute in ("<<<M423>>>" ++ check (runes_of_ascii "options
+{
+matchKey = 42/// triple
+x=; '0'
+// packet A { u8 x, }
+//
+charz
+=
+// packet A { u8 x, }
+// trailing space 
+true  ; } MetaData BodyLength
+{
+uint8
+pack,zchar[ 1]float ,  float32 x_y_z `` ,u32
+_x,i16 body  , }
+")).
+Eval vm_compute in ("<<<M411>>>" ++ check (runes_of_ascii "options
+{
+matchKey = 42/// triple
+='0' ;
+// packet A { u8 x, }
+//
+charz
+=
+// packet A { u8 x, }
+// trailing space 
+true  ; } MetaData BodyLength
+{
+uint8
+pack,zchar[ 1]float ,  float32 x_y_z `` ,u32
+_x,i16 body  , }
+")).
+Eval vm_compute in ("<<<M551>>>" ++ check (runes_of_ascii "options
+{
+matchKey = 42/// triple
+x='0' ;
+// packet A { u8 x, }
+//
+charz
+=
+// packet A { u8 x, }
+// trailing space 
+true  ; } MetaData BodyLength
+{
+uint8
+pack,zchar[ 1]float ,  float32 x_y_z `` ,u32
+_x,i16   , }
+")).
+Eval vm_compute in ("<<<M545>>>" ++ check (runes_of_ascii "options
+{
+matchKey = 42/// triple
+x='0' ;
+// packet A { u8 x, }
+//
+charz
+=
+// packet A { u8 x, }
+// trailing space 
+true  ; } MetaData BodyLength
+{
+uint8
+pack,zchar[ 1]float ,  float32 x_y_z `` ,u32
+_x")).
+Eval vm_compute in ("<<<M1400>>>" ++ check (runes_of_ascii "options {
+    FixedStringPadChar = '0';
+}
+packet Q {
+    zchar[4] z,
+    @rightPad('\x00') char[3] n,
+    char[5] d,
+}
+root packet R {
+    Q,
+    zchar[8] top,
+    repeat zchar[2] zs,
+}
+")).
+Eval vm_compute in ("<<<M720>>>" ++ check (runes_of_ascii "// c
+packet i64_ {	char[] calculatedFrom , } packet
+trueish  {@calculatedFrom(
+""a\\"" ) o { i32 falsey@lengthOf( uint8x ),
+} , } // `tick` ""quote"" 'q'
+$options {// c
+Z9_ = ' '//
+}
+")).
+Eval vm_compute in ("<<<M1706>>>" ++ check (runes_of_ascii "
+packet
+    u128
+    { i64
 
-5  ,""f""
+A 
+`{ , }`	, 
+}MetaData	i64_
+
+{ trueish 
+Z9_
+    ,
+
+    // " ++ [128512]%N ++ runes_of_ascii " emoji
+    // `tick` ""quote"" 'q'
+      } options { 
+metadata = i16
+
+; charz = false
+
+}
+")).
+Eval vm_compute in ("<<<M1828>>>" ++ check (runes_of_ascii "packet lengthOf {
+    @leftPad()
+    // a // b
+    @tag(7)
+    u8 BodyLength,
+    char[1] chars `
+        `,
+    @tag(00)
+    char[0] Z9_ @lengthOf(float) `u8 x,`,
+}")).
+Eval vm_compute in ("<<<M1380>>>" ++ check (runes_of_ascii "root packet
+    // c1
+P // c2
+{ u8 // c4
+s_u8 // c5
+, // c6
+repeat // c7
+u8 // c8
+r_u8 , u16 // c11
+b_len
+    // c12
+, // c13a
+  // c13b
+}
+    // c14
+")).
+Eval vm_compute in ("<<<M1560>>>" ++ check (runes_of_ascii "packet
+B{ 
+u8 
+a
+,}	root packet  P
+{u8
+
+K	,match	K
+as Body
+
+    {
+    1
+	:B  ,
+	}  ,
+
+u16 L
+	@lengthOf(
+Body
+    )
 
     ,
-    7
-    ,  ""h""
-    , 9  , ""j""
 
-,  11
-,
-    ""l"" ]  :
-	B
-2 :
-C
-
-    }	,
     }
 
 ")).
-Eval vm_compute in ("<<<M1330>>>" ++ check (runes_of_ascii "packet len{	}//	t
-root packet Pad {char[] Header	, @lengthOf(	falsey
-    )
-    // " ++ [128512]%N ++ runes_of_ascii " emoji
-    char[] Header , len`line1
-line2`
-,} packet asx { repeat int16
-    u , }
-")).
-Eval vm_compute in ("<<<M3929>>>" ++ check (runes_of_ascii "MetaData stringy {
-    zchar[255] u `
-    `,// packet A { u8 x, }
-    string repeatCount,
-    As i8i8 `{ , }`,
-    string x_y_z,
-    uint16 Pad,
-    uint32 asx,
-}")).
-Eval vm_compute in ("<<<M4237>>>" ++ check (runes_of_ascii "// c
-options {
-    lengthOf = false
-    Logon = false;
-}
-
-MetaData lengthOf {
-    // " ++ [128512]%N ++ runes_of_ascii " emoji
-    float32 i8i8,
-}
-
-root packet roots {
-    zchar[7] f32a,
-}")).
-Eval vm_compute in ("<<<M186>>>" ++ check (runes_of_ascii "//	t
-MetaData asx { char[]asx , x
-_x , } root packet lengthOf{ @tag(
-10
-)@rightPad ( '0' )
-    @rightPad('0' ) // " ++ [128512]%N ++ runes_of_ascii " emoji
-u32
-BodyLength, //	t
-}
-")).
-Eval vm_compute in ("<<<M1396>>>" ++ check (runes_of_ascii "root packet  BodyLength
-{
-}// `tick` ""quote"" 'q'
-root
-    // `tick` ""quote"" 'q'
-    packet f32a// c
-{
-@leftPad ( '0')
-    //
-    int8	Z9_	,}
-
-")).
-Eval vm_compute in ("<<<M1683>>>" ++ check (runes_of_ascii "root packet /// triple
-rootA {	i32
-MetaDataX@calculatedFrom( ""CRC32"" ) `line1
-line2` , } MetaData MetaData BodyLength {
-u8
-rootA, } // c")).
-Eval vm_compute in ("<<<M3785>>>" ++ check (runes_of_ascii "packet A {
+Eval vm_compute in ("<<<M1815>>>" ++ check (runes_of_ascii "packet A {
     match k as n {
         [
-            ""a"", ""bb"", ""c c"", ""d"", ""e"",
-            ""f""
+            1, 22, ""c c"", 4, 5,
+            ""f"", 7, 8
         ] : B,
         2 : C,
     },
 }")).
-Eval vm_compute in ("<<<M299>>>" ++ check (runes_of_ascii "
-packet a1
-{ match i8i8
-    as repeatCount
-    // c
-    { [ 00
-    ] : crc, 3 :f32a 7 : matchKey , 0123456789	: float
-    } , }
-")).
-Eval vm_compute in ("<<<M1639>>>" ++ check (runes_of_ascii "root packet /// triple
-rootA i32	{
-MetaDataX@calculatedFrom( ""CRC32"" ) `line1
-line2` , } MetaData BodyLength {
-u8
-rootA, } // c")).
-Eval vm_compute in ("<<<M666>>>" ++ check (runes_of_ascii "  MetaData body
-{i16 // @lengthOf(
-metadata
-//	t
-// packet A { u8 x, }
-,
-float64
-    leftPad
-`
-`, BodyLength Z9_ `" ++ [233]%N ++ runes_of_ascii "`
-    ,}
-")).
-Eval vm_compute in ("<<<M865>>>" ++ check (runes_of_ascii "
-packet//x
-trueish
-{ u128 zchar`{ , }` ,repeat BodyLength crc`{ , }`, match len as As { ""CRC32"" : // " ++ [128512]%N ++ runes_of_ascii " emoji
-rootA ,
-} ,}")).
-Eval vm_compute in ("<<<M1796>>>" ++ check (runes_of_ascii "packet
-    Pad // a // b
-{ i8i8 i8i8 @calculatedFrom( ""a	b"") `u8 x,` ,
-} options{ float// " ++ [128512]%N ++ runes_of_ascii " emoji
-= f64 i64_
-=//	t
-00 }
-")).
-Eval vm_compute in ("<<<M3598>>>" ++ check (runes_of_ascii "
-packet
-A{
-match	k as n {
-
-    [ 1 ,""bb"" , 
-007
-    ,	""d"" ,	5,  ""f"",7,  ""h""
-,9  , 
-""j""  ,
-11	]
-:
-
-B
-
-, 2
-	:C
-} , }")).
-Eval vm_compute in ("<<<M1837>>>" ++ check (runes_of_ascii "packet
-    Pad // a // b
-{ i8i8 @calculatedFrom( ""a	b"") `u8 x,` ,
-} options float {// " ++ [128512]%N ++ runes_of_ascii " emoji
-= f64 i64_
-=//	t
-00 }
-")).
-Eval vm_compute in ("<<<M1817>>>" ++ check (runes_of_ascii "packet
-    Pad // a // b
-{ i8i8 @calculatedFrom( ""a	b"") , `u8 x,`
-} options{ float// " ++ [128512]%N ++ runes_of_ascii " emoji
-= f64 i64_
-=//	t
-00 }
-")).
-Eval vm_compute in ("<<<M3460>>>" ++ check (runes_of_ascii "// top
-root
-    // c0
-packet // c1a
-  // c1b
-P // c2a
-  // c2b
-{ // c3a
-  // c3b
-string // c4
-s , // c6
-}
-    // c7
-")).
-Eval vm_compute in ("<<<M1028>>>" ++ check (runes_of_ascii "MetaData int	{i64_ calculatedFrom , As
-    //
-    a1 `it's` ,u64  string_`two words` , repeatCount//
-Pad
-,
-    }
-")).
-Eval vm_compute in ("<<<M4049>>>" ++ check (runes_of_ascii "root packet MetaDataX {
-    //	t
-    @calculatedFrom(""it's"")
-    string msg_type @calculatedFrom("""") `{ , }`,
+Eval vm_compute in ("<<<M2000>>>" ++ check (runes_of_ascii "packet A {
+    u16 len @lengthOf(body) `a
+        b`,
+    u32 crc @calculatedFrom(""CRC32"") `a
+        b`,
+    string body,
 }")).
-Eval vm_compute in ("<<<M511>>>" ++ check (runes_of_ascii "
-MetaData
-crc { MetaDataX pack
-    //x
-    ,
-/// triple
-// c
-}
-    MetaData repeatCount
-{
-// " ++ [128512]%N ++ runes_of_ascii " emoji
-//
-}
-")).
-Eval vm_compute in ("<<<M616>>>" ++ check (runes_of_ascii "packet
-msg_type { @rightPad ( )	@leftPad ('\x00' ) @rightPad// @lengthOf(
-(
-'\x00'  )  rootA
-    ``, }
-")).
-Eval vm_compute in ("<<<M3349>>>" ++ check (runes_of_ascii "packet calculatedFrom { @tag( 4294967296 ) // c
-u msg_type , char[ 3 ] crc @lengthOf( len ) `u8 x,` , }")).
-Eval vm_compute in ("<<<M1982>>>" ++ check (runes_of_ascii "root
-packet crc
-    { f32a @calculatedFrom( @calculatedFrom( """ ++ [233]%N ++ runes_of_ascii "t" ++ [233]%N ++ runes_of_ascii """ )
-    `say ""hi""`, lengthOf `` ,  }")).
-Eval vm_compute in ("<<<M3999>>>" ++ check (runes_of_ascii "packet
-roots
-	{ rootA
-    @lengthOf(trueish
-)	`line1
-line2`
-    , int16	Packet
-    `" ++ [28040; 24687; 31867; 22411]%N ++ runes_of_ascii "`
-    , } ")).
-Eval vm_compute in ("<<<M2968>>>" ++ check (runes_of_ascii "packet A {
-  match k as n {
-    [1, ""bb"", 007, ""d"", 5, ""f"", 7, ""h"", 9, ""j""] : B
-    2 : C
-  },
-}")).
-Eval vm_compute in ("<<<M3225>>>" ++ check (runes_of_ascii "packet Logon { @tag( 42
-// c
-) @rightPad ( ' ' ) @leftPad ( ) repeat trueish { string T , } , }")).
-Eval vm_compute in ("<<<M3257>>>" ++ check (runes_of_ascii "packet Logon { @tag( 42 ) @rightPad ( ' ' ) @leftPad ( ) repeat trueish { string T , } ,
-// c
-}")).
-Eval vm_compute in ("<<<M2926>>>" ++ check (runes_of_ascii "packet A {
-  match k as n {
-    [""a"", ""bb"", ""c c"", ""d"", ""e"", ""f"", ""g""] : B,
-    2 : C
-  },
-}")).
-Eval vm_compute in ("<<<M4135>>>" ++ check (runes_of_ascii "packet A {
-    B b `a
-    
-    b`,
-    B `a
-    
-    b`,
-    repeat B bs `a
-    
-    b`,
-}")).
-Eval vm_compute in ("<<<M1256>>>" ++ check (runes_of_ascii "options { leftPad= 42 matchKey
-= ""CRC32"" // `tick` ""quote"" 'q'
-; lengthOf = ""{,}"" ;
-}
-")).
-Eval vm_compute in ("<<<M2034>>>" ++ check (runes_of_ascii "root
-packet " ++ [233]%N ++ runes_of_ascii "crc
-    { f32a @calculatedFrom( """ ++ [233]%N ++ runes_of_ascii "t" ++ [233]%N ++ runes_of_ascii """ )
-    `say ""hi""`, lengthOf `` ,  }")).
-Eval vm_compute in ("<<<M2018>>>" ++ check (runes_of_ascii "root
-packet crc
-    { f32a @calculatedFrom( """ ++ [233]%N ++ runes_of_ascii "t" ++ [233]%N ++ runes_of_ascii """ )
-    `say ""hi""`, lengthOf `` }  ,")).
-Eval vm_compute in ("<<<M1849>>>" ++ check (runes_of_ascii "packet
-    Pad // a // b
-{ i8i8 @calculatedFrom( ""a	b"") `u8 x,` ,
-} options{ float")).
-Eval vm_compute in ("<<<M2938>>>" ++ check (runes_of_ascii "packet A {
-  match k as n {
-    [1, 22, 007, 4, 5, 66, 7, 8] : B
-    2 : C
-  },
-}")).
-Eval vm_compute in ("<<<M3324>>>" ++ check (runes_of_ascii "packet o { @tag( 42 ) repeat x { char[ 0123456789 ] i64_ , } , // c
-} options { }")).
-Eval vm_compute in ("<<<M889>>>" ++ check (runes_of_ascii "options { // c
-matchKey= ""a\""b""	; a1
-=
-uint16
-charz
-=char[]
-a1	=u8; As = 00; }")).
-Eval vm_compute in ("<<<M2733>>>" ++ check (runes_of_ascii """a	b"" , char[] @rightPad false @calculatedFrom( Foo ] i64 char MetaData 7 { }")).
-Eval vm_compute in ("<<<M2895>>>" ++ check (runes_of_ascii "packet A {
-  match k as n {
-    [""a"", ""bb"", 007, ""d""] : B,
-    2 : C
-  },
-}")).
-Eval vm_compute in ("<<<M2975>>>" ++ check (runes_of_ascii "packet A { Inner { match k as n { [1,22,007,4,5,66,7,8,9,10] : B, }, }, }")).
-Eval vm_compute in ("<<<M1277>>>" ++ check (runes_of_ascii "options{
-    lengthOf = zchar[//	t
-0 ]
-Logon =42
-roots = ""CRC32""
-    }")).
-Eval vm_compute in ("<<<M4256>>>" ++ check (runes_of_ascii "
+Eval vm_compute in ("<<<M1663>>>" ++ check (runes_of_ascii "
 
   packet
-A
-{ match 
-k as	n	{ [  ""a"" ] :	B  2
 
-:
-    C }
-    ,
+A { match 
+k as	n  {	[
+""a""
+, 22
+, ""c c"",
 
-}
+4  ,
 
+    ""e"" , 66 
+,
+
+""g""
+,8
+	, ""i"",
+10
+, ""k"" ]	:	B
+2	:
+	C  },}")).
+Eval vm_compute in ("<<<M1585>>>" ++ check (runes_of_ascii "
+packet	calculatedFrom
+	{ 
+@tag(
+4294967296	)u	msg_type
+,
+char[ 3 ] crc  @lengthOf( 
+	// c
+
+	len 
+)  `u8 x,` ,}
 ")).
-Eval vm_compute in ("<<<M2204>>>" ++ check (runes_of_ascii "root
- @x   // `tick` ""quote"" 'q'
-    packet As { trueish Packet , }
+Eval vm_compute in ("<<<M1511>>>" ++ check (runes_of_ascii "
+packet o
+	{  @tag(42)	repeat
+
+    x { 
+        // c
+    char[ 
+0123456789
+    ]  i64_
+,
+
+    }	,  } options
+{} ")).
+Eval vm_compute in ("<<<M1101>>>" ++ check (runes_of_ascii "MetaData zchar // c1
+{ // c2a
+  // c2b
+zchar[ // c3a
+  // c3b
+3 ]
+    // c5
+Pad // c6
+, // c7a
+  // c7b
+} // c8
 ")).
-Eval vm_compute in ("<<<M1829>>>" ++ check (runes_of_ascii "packet
-    Pad // a // b
-{ i8i8 @calculatedFrom( ""a	b"") `u8 x,` ,")).
-Eval vm_compute in ("<<<M2873>>>" ++ check (runes_of_ascii "packet A {
+Eval vm_compute in ("<<<M1330>>>" ++ check (runes_of_ascii "// top
+root
+    // c0
+packet P {
+    // c3
+char // c4
+c // c5
+,
+    // c6
+u8 // c7
+x // c8
+, // c9
+} // c10
+")).
+Eval vm_compute in ("<<<M897>>>" ++ check (runes_of_ascii "packet A {
   match k as n {
-    [1, 22, 007] : B
+    [""a"", 22, ""c c"", 4, ""e"", 66, ""g"", 8, ""i"", 10, ""k""] : B
     2 : C
   },
 }")).
-Eval vm_compute in ("<<<M16>>>" ++ check (runes_of_ascii "MetaData
-    stringy
-{ char[ 0] chars// @lengthOf(
-`{ , }` , }")).
-Eval vm_compute in ("<<<M1937>>>" ++ check (runes_of_ascii "
-packet	As { @calculatedFrom(//x
-""{,}""	)lengthOf , zchar[ 	 ")).
-Eval vm_compute in ("<<<M2603>>>" ++ check (runes_of_ascii "packet A { match k as n { 1 : B 2 : C ""s"" : D [1] : E }, }")).
-Eval vm_compute in ("<<<M4223>>>" ++ check (runes_of_ascii "  options{ }
-
-options{} 	 // `tick` ""quote"" 'q@leftpad'
-")).
-Eval vm_compute in ("<<<M1932>>>" ++ check (runes_of_ascii "
-packet	As { @calculatedFrom(//x
-""{,}""	)lengthOf } , 	 ")).
-Eval vm_compute in ("<<<M3163>>>" ++ check (runes_of_ascii "// a
-MetaData M {} // b
+Eval vm_compute in ("<<<M1280>>>" ++ check (runes_of_ascii "packet calculatedFrom { @tag( 4294967296 ) u msg_type , char[ 3 ] crc @lengthOf(
 // c
-MetaData N {} // d
-// e")).
-Eval vm_compute in ("<<<M2862>>>" ++ check (runes_of_ascii "packet A { Inner { match k as n { [1] : B, }, }, }")).
-Eval vm_compute in ("<<<M801>>>" ++ check (runes_of_ascii "MetaData tag { Logon rootA `` ,
-} packet Pad{
+len ) `u8 x,` , }")).
+Eval vm_compute in ("<<<M883>>>" ++ check (runes_of_ascii "packet A {
+  match k as n {
+    [""a"", 22, ""c c"", 4, ""e"", 66, ""g"", 8, ""i"", 10] : B,
+    2 : C
+  },
+}")).
+Eval vm_compute in ("<<<M176>>>" ++ check (runes_of_ascii "MetaData
+x_y_z
+{
+Logon
+    repeatCount `say ""hi""`,  crc
+    x_y_z
+,
+    char[	10 ] Foo  ,
 }
 ")).
-Eval vm_compute in ("<<<M2399>>>" ++ check (runes_of_ascii "MetaData A
-{
-i64
-chars	,  // `tick` ""quote"" 'q'")).
-Eval vm_compute in ("<<<M4312>>>" ++ check (runes_of_ascii "options {
-    a = ""\
-    "";
-    b = ""\
-    ""
+Eval vm_compute in ("<<<M1158>>>" ++ check (runes_of_ascii "packet Logon { @tag( 42 ) @rightPad ( ' ' ) @leftPad ( ) repeat trueish // c
+{ string T , } , }")).
+Eval vm_compute in ("<<<M868>>>" ++ check (runes_of_ascii "packet A {
+  match k as n {
+    [1, ""bb"", 007, ""d"", 5, ""f"", 7, ""h"", 9] : B,
+    2 : C
+  },
 }")).
-Eval vm_compute in ("<<<M2597>>>" ++ check (runes_of_ascii "packet A { repeat B { C { u8 x, }, D d, }, }")).
-Eval vm_compute in ("<<<M1226>>>" ++ check (runes_of_ascii "packet lengthOf { }
-// packet A { u8 x, }
+Eval vm_compute in ("<<<M282>>>" ++ check (runes_of_ascii "MetaData charz {
+Pad tag `two words` ,
+    u32 matchKey ,u128 Foo ,
+char[ 255 ] body ,}
 ")).
-Eval vm_compute in ("<<<M3417>>>" ++ check (runes_of_ascii "
-root packet	P {
-char  c
-, u8 x 
-, 
-} ")).
-Eval vm_compute in ("<<<M3192>>>" ++ check (runes_of_ascii "MetaData zchar // c
-{ zchar[ 3 ] Pad , }")).
-Eval vm_compute in ("<<<M2147>>>" ++ check (runes_of_ascii "MetaData x
-{// " ++ [128512]%N ++ runes_of_ascii " emoji
-i16 s'tringy , }")).
-Eval vm_compute in ("<<<M3575>>>" ++ check (runes_of_ascii "
-root packet 
-P{
-	string s
+Eval vm_compute in ("<<<M835>>>" ++ check (runes_of_ascii "packet A {
+  match k as n {
+    [""a"", ""bb"", 007, ""d"", ""e"", 66] : B,
+    2 : C
+  },
+}")).
+Eval vm_compute in ("<<<M1209>>>" ++ check (runes_of_ascii "packet
+// c
+o { @tag( 42 ) repeat x { char[ 0123456789 ] i64_ , } , } options { }")).
+Eval vm_compute in ("<<<M1241>>>" ++ check (runes_of_ascii "packet o { @tag( 42 ) repeat x { char[ 0123456789 ] i64_ , } , }
+// c
+options { }")).
+Eval vm_compute in ("<<<M1943>>>" ++ check (runes_of_ascii "MetaData// c
+  _x	{  zchar[
+    4294967296 ] lengthOf  `// not a comment` , }
 
-    ,} ")).
-Eval vm_compute in ("<<<M2150>>>" ++ check (runes_of_ascii "MetaData x
-{// " ++ [128512]%N ++ runes_of_ascii " emoji
-i16 na" ++ [239]%N ++ runes_of_ascii "ve , }")).
-Eval vm_compute in ("<<<M2582>>>" ++ check (runes_of_ascii "packet A { string x @lengthOf(y) }")).
-Eval vm_compute in ("<<<M1604>>>" ++ check (runes_of_ascii "root packet Foo // " ++ [128512]%N ++ runes_of_ascii " emoji
-{ } o")).
-Eval vm_compute in ("<<<M3690>>>" ++ check (runes_of_ascii "root packet As {
-    trueish,
-}")).
-Eval vm_compute in ("<<<M3113>>>" ++ check (runes_of_ascii "packet A {
- u8 x `d" ++ [8287]%N ++ runes_of_ascii "`, // c" ++ [8287]%N ++ runes_of_ascii "
-}")).
-Eval vm_compute in ("<<<M1433>>>" ++ check (runes_of_ascii "root packet Foo // " ++ [128512]%N ++ runes_of_ascii " emoji
-{")).
-Eval vm_compute in ("<<<M2722>>>" ++ check (runes_of_ascii "@tag( { } : match : { false")).
-Eval vm_compute in ("<<<M2620>>>" ++ check (runes_of_ascii "packet A { @tag(x) u8 x, }")).
-Eval vm_compute in ("<<<M3281>>>" ++ check (runes_of_ascii "options { u8x = 3 } // c
 ")).
-Eval vm_compute in ("<<<M3273>>>" ++ check (runes_of_ascii "options { // c
-u8x = 3 }")).
-Eval vm_compute in ("<<<M2666>>>" ++ check (runes_of_ascii "options { packet = 1; }")).
-Eval vm_compute in ("<<<M2773>>>" ++ check (runes_of_ascii "int64 ; char match i64")).
-Eval vm_compute in ("<<<M409>>>" ++ check (runes_of_ascii "MetaData leftPad	{}
+Eval vm_compute in ("<<<M826>>>" ++ check (runes_of_ascii "packet A {
+  match k as n {
+    [1, 22, 007, 4, 5, 66] : B
+    2 : C
+  },
+}")).
+Eval vm_compute in ("<<<M747>>>" ++ check (runes_of_ascii "@rightPad zchar[ @leftPad uint8 i8 uint64 asx ; ; @lengthOf( root @tag(")).
+Eval vm_compute in ("<<<M1323>>>" ++ check (runes_of_ascii "MetaData _x { zchar[ 4294967296 ] lengthOf `// not a comment` // c
+, }")).
+Eval vm_compute in ("<<<M1480>>>" ++ check (runes_of_ascii "MetaData _x {
+    zchar[4294967296] lengthOf `// not a comment`,
+}")).
+Eval vm_compute in ("<<<M1833>>>" ++ check (runes_of_ascii "MetaData matchKey {
+    u64 chars,
+    char[] lengthOf,//	t
+}")).
+Eval vm_compute in ("<<<M57>>>" ++ check (runes_of_ascii "MetaData stringy { uint8
+//x
+// @lengthOf(
+string_
+, }
 ")).
-Eval vm_compute in ("<<<M2641>>>" ++ check (runes_of_ascii "MetaData M { u8 x }")).
-Eval vm_compute in ("<<<M2738>>>" ++ check (runes_of_ascii """{,}"" char [ match")).
-Eval vm_compute in ("<<<M3122>>>" ++ check (runes_of_ascii "// c" ++ [12]%N ++ runes_of_ascii "
+Eval vm_compute in ("<<<M944>>>" ++ check (runes_of_ascii "MetaData M {
+    u8 x `a
+
+b`,
+    T t `a
+
+b`,
+}")).
+Eval vm_compute in ("<<<M1994>>>" ++ check (runes_of_ascii "MetaData M
+
+{ u8
+x `x
+`	, T t  `x
+`
+, 
+}")).
+Eval vm_compute in ("<<<M311>>>" ++ check (runes_of_ascii "MetaData x_y_z { string options1 , }
+")).
+Eval vm_compute in ("<<<M921>>>" ++ check (runes_of_ascii "root packet A {
+    u8 x `a
+b`,
+}")).
+Eval vm_compute in ("<<<M756>>>" ++ check ([65533]%N ++ runes_of_ascii "\" ++ [18]%N ++ runes_of_ascii "7" ++ [65533; 65533; 65533]%N ++ runes_of_ascii "W" ++ [65533; 65533]%N ++ runes_of_ascii "I" ++ [65533; 65533]%N ++ runes_of_ascii "9," ++ [65533]%N ++ runes_of_ascii "w" ++ [14; 65533]%N ++ runes_of_ascii "D" ++ [65533; 65533]%N ++ runes_of_ascii "H" ++ [65533; 65533; 65533]%N ++ runes_of_ascii "r" ++ [65533; 65533; 65533]%N)).
+Eval vm_compute in ("<<<M66>>>" ++ check (runes_of_ascii "packet Foo{ f64 Pad ,x
+, }")).
+Eval vm_compute in ("<<<M1189>>>" ++ check (runes_of_ascii "options { u8x // c
+= 3 }")).
+Eval vm_compute in ("<<<M94>>>" ++ check (runes_of_ascii "  options //x
+{} 	 ")).
+Eval vm_compute in ("<<<M1001>>>" ++ check (runes_of_ascii "// c" ++ [8192]%N ++ runes_of_ascii "
 packet A {
 }")).
-Eval vm_compute in ("<<<M3059>>>" ++ check (runes_of_ascii "packet A {
-}// c ")).
-Eval vm_compute in ("<<<M3887>>>" ++ check (runes_of_ascii "packet x_y_z {
+Eval vm_compute in ("<<<M978>>>" ++ check (runes_of_ascii "packet A {
+}// c" ++ [12288]%N)).
+Eval vm_compute in ("<<<M1832>>>" ++ check (runes_of_ascii "packet A {
 }")).
-Eval vm_compute in ("<<<M2827>>>" ++ check (runes_of_ascii ";,1Ws PvAg=KMJ")).
-Eval vm_compute in ("<<<M2755>>>" ++ check ([1074; 18; 65533; 65533; 65533]%N ++ runes_of_ascii "G" ++ [23; 65533; 65533]%N ++ runes_of_ascii "+t")).
-Eval vm_compute in ("<<<M2055>>>" ++ check (runes_of_ascii "MetaData")).
-Eval vm_compute in ("<<<M1789>>>" ++ check (runes_of_ascii "packet")).
-Eval vm_compute in ("<<<M2449>>>" ++ check (runes_of_ascii "false")).
-Eval vm_compute in ("<<<M3812>>>" ++ check (runes_of_ascii "
-//
-")).
-Eval vm_compute in ("<<<M1319>>>" ++ check (runes_of_ascii "
-
-")).
-Eval vm_compute in ("<<<M2807>>>" ++ check (runes_of_ascii "e-z")).
-Eval vm_compute in ("<<<M2516>>>" ++ check (runes_of_ascii "`")).
+Eval vm_compute in ("<<<M1009>>>" ++ check (runes_of_ascii "// c" ++ [8232]%N)).
